@@ -4,11 +4,19 @@
   Theorems about `Model/Engine` (argparse's optional-argument engine as simple-parsing uses it),
   quantified over EVERY argv and every action table, plus the rejection lemmas for each mutation
   class of the property's quantifier.
+
+  Sections 1-6: round 1 (status, rejection on rendered command lines, engine-stage soundness, no
+  traceback, counters).  Sections 7-11: round 2 — every outcome accounted for (dead escape hatches,
+  status 0 needs a help token, rejected = status 2), rejection theorems over ARBITRARY command lines
+  through the one-step characterisation of the loop (`Lemmas/C04Step`), the lexer's verdict derived
+  from the spelling, conformance to the ANNOTATION through the whole flat pipeline
+  (`c04_conforms_flat`), no traceback incl. `postprocess` (`c04_no_traceback_pipeline`).
 -/
 import SpVerif.Lemmas.Engine
+import SpVerif.Lemmas.C04Step
 import SpVerif.Model.Fields
 namespace SpVerif.C04
-open SpVerif
+open SpVerif SpVerif.Loop
 
 /-! ### 1. the only exit statuses are 2 (error path) and 0 (an explicit help request) -/
 
@@ -699,12 +707,23 @@ def InRange (fenv : FEnv) (act : Act) (s : Scalar) : Prop :=
   ∃ k t, act.conv.apply fenv k t = .ok s ∧
     (∀ ch, act.choices = some ch → ∃ u, s = .str u ∧ ch.contains u = true)
 
-/-- admissible stored values of an action -/
+/-- the lengths `_get_values` can produce as a LIST for each `nargs` shape (`nargs=None` and a
+    bare / single-valued `'?'` never give a list) -/
+def ListArity : NArgs → Nat → Prop
+  | .star, _ => True
+  | .plus, k => 1 ≤ k
+  | .num m, k => k = m
+  | _, _ => False
+
+/-- admissible stored values of an action: `None` only for a bare `nargs='?'` option, a single
+    converted item only for `nargs=None` / `'?'`, a list of converted items only for `'*'`, `'+'`
+    and `N` — and then with exactly `N` items -/
 def ValOk (fenv : FEnv) (act : Act) (v : Val) : Prop :=
   match act.kind with
   | .boolOpt _ => ∃ b, v = .sc (.bool b)
-  | _ => v = .sc .none ∨ (∃ s, v = .sc s ∧ InRange fenv act s) ∨
-         (∃ l, v = .list l ∧ ∀ s ∈ l, InRange fenv act s)
+  | _ => (v = .sc .none ∧ act.nargs = .opt) ∨
+         (∃ s, v = .sc s ∧ InRange fenv act s ∧ (act.nargs = .one ∨ act.nargs = .opt)) ∨
+         (∃ l, v = .list l ∧ (∀ s ∈ l, InRange fenv act s) ∧ ListArity act.nargs l.length)
 
 /-- every namespace entry is either an action's declared default or an admissible stored value -/
 def NsOk (fenv : FEnv) (tbl : List Act) (ns : List (Str × Val)) : Prop :=
@@ -790,10 +809,45 @@ theorem segVal_cases (n : NArgs) (vs : List Scalar) :
   · right; left; exact ⟨_, by simp, rfl⟩
   · right; right; rfl
 
+/-- the packaged value, given that the number of items fits `nargs` -/
+theorem segVal_arity (n : NArgs) (vs : List Scalar) (h : arityOk n vs.length) :
+    (segVal n vs = .sc .none ∧ n = .opt) ∨
+    (∃ v, vs = [v] ∧ segVal n vs = .sc v ∧ (n = .one ∨ n = .opt)) ∨
+    (segVal n vs = .list vs ∧ ListArity n vs.length) := by
+  cases n with
+  | one =>
+    simp only [arityOk] at h
+    match vs, h with
+    | [v], _ => right; left; exact ⟨v, rfl, rfl, Or.inl rfl⟩
+  | opt =>
+    simp only [arityOk] at h
+    match vs, h with
+    | [], _ => left; exact ⟨rfl, rfl⟩
+    | [v], _ => right; left; exact ⟨v, rfl, rfl, Or.inr rfl⟩
+  | star =>
+    right; right
+    match vs with
+    | [] => exact ⟨rfl, trivial⟩
+    | [v] => exact ⟨rfl, trivial⟩
+    | _ :: _ :: _ => exact ⟨rfl, trivial⟩
+  | plus =>
+    right; right
+    match vs, h with
+    | [v], _ => exact ⟨rfl, by simp [ListArity]⟩
+    | _ :: _ :: _, _ => exact ⟨rfl, by simp [ListArity]⟩
+  | num m =>
+    right; right
+    match vs with
+    | [] => exact ⟨rfl, h⟩
+    | [v] => exact ⟨rfl, h⟩
+    | _ :: _ :: _ => exact ⟨rfl, h⟩
+
 theorem getValues_ok (fenv : FEnv) (act : Act) (i : Nat) (cs cs' : List Nat) (toks : List Str)
-    (v : Val) (h : getValues fenv act i cs toks = .ok (v, cs')) :
-    v = .sc .none ∨ (∃ s, v = .sc s ∧ InRange fenv act s) ∨
-      (∃ l, v = .list l ∧ ∀ s ∈ l, InRange fenv act s) := by
+    (v : Val) (har : arityOk act.nargs toks.length)
+    (h : getValues fenv act i cs toks = .ok (v, cs')) :
+    (v = .sc .none ∧ act.nargs = .opt) ∨
+      (∃ s, v = .sc s ∧ InRange fenv act s ∧ (act.nargs = .one ∨ act.nargs = .opt)) ∨
+      (∃ l, v = .list l ∧ (∀ s ∈ l, InRange fenv act s) ∧ ListArity act.nargs l.length) := by
   rw [getValues_ok_iff] at h
   cases h1 : getValuesList fenv act i cs toks with
   | error e => rw [h1] at h; cases h
@@ -802,11 +856,12 @@ theorem getValues_ok (fenv : FEnv) (act : Act) (i : Nat) (cs cs' : List Nat) (to
     rw [h1] at h
     simp only [Except.ok.injEq, Prod.mk.injEq] at h
     have hr := getValuesList_range fenv act i cs c1 toks vs h1
+    have hl := getValuesList_length fenv act i cs c1 toks vs h1
     rw [← h.1]
-    rcases segVal_cases act.nargs vs with h0 | ⟨v', hv', h0⟩ | h0
-    · left; exact h0
-    · right; left; exact ⟨v', h0, hr v' hv'⟩
-    · right; right; exact ⟨vs, h0, hr⟩
+    rcases segVal_arity act.nargs vs (by rw [hl]; exact har) with ⟨h0, hn⟩ | ⟨v', hv', h0, hn⟩ | ⟨h0, hn⟩
+    · left; exact ⟨h0, hn⟩
+    · right; left; exact ⟨v', h0, hr v' (by rw [hv']; simp), hn⟩
+    · right; right; exact ⟨vs, h0, hr, hn⟩
 
 theorem nsOk_setKey (fenv : FEnv) (tbl : List Act) (ns : List (Str × Val)) (act : Act)
     (hmem : act ∈ tbl) (v : Val) (hv : ValOk fenv act v) (h : NsOk fenv tbl ns) :
@@ -817,12 +872,14 @@ theorem nsOk_setKey (fenv : FEnv) (tbl : List Act) (ns : List (Str × Val)) (act
   · exact h p hp
 
 theorem takeAction_nsOk (fenv : FEnv) (tbl : List Act) (st st' : St) (i : Nat) (o : Str)
-    (args : List Str) (h : takeAction fenv tbl st i o args = .ok st') (hns : NsOk fenv tbl st.ns) :
+    (args : List Str) (h : takeAction fenv tbl st i o args = .ok st') (hns : NsOk fenv tbl st.ns)
+    (hargs : ∀ act, tbl[i]? = some act → arityOk act.nargs args.length) :
     NsOk fenv tbl st'.ns := by
   unfold takeAction at h
   cases hact : tbl[i]? with
   | none => rw [hact] at h; cases h
   | some act =>
+    have har := hargs act hact
     have hmem : act ∈ tbl := List.mem_of_getElem? hact
     rw [hact] at h
     simp only at h
@@ -840,7 +897,7 @@ theorem takeAction_nsOk (fenv : FEnv) (tbl : List Act) (st st' : St) (i : Nat) (
         subst h
         refine nsOk_setKey fenv tbl st.ns act hmem v ?_ hns
         simp only [ValOk, hk]
-        exact getValues_ok fenv act i st.counters cs args v h1
+        exact getValues_ok fenv act i st.counters cs args v har h1
     | boolOpt negs =>
       rw [hk] at h
       simp only at h
@@ -861,58 +918,15 @@ theorem takeAction_nsOk (fenv : FEnv) (tbl : List Act) (st st' : St) (i : Nat) (
 
 theorem consume_nsOk (fenv : FEnv) (tbl : List Act) (fuel : Nat) (st st' : St)
     (l : List (Str × Tok)) (h : consume fenv tbl fuel st l = .ok st') (hns : NsOk fenv tbl st.ns) :
-    NsOk fenv tbl st'.ns := by
-  induction fuel generalizing st l with
-  | zero =>
-    cases l with
-    | nil => simp only [consume, Except.ok.injEq] at h; subst h; exact hns
-    | cons p ps => simp [consume] at h
-  | succ n ih =>
-    cases l with
-    | nil => simp only [consume, Except.ok.injEq] at h; subst h; exact hns
-    | cons p ps =>
-      obtain ⟨a, t⟩ := p
-      cases t with
-      | A => simp only [consume] at h; exact ih _ _ h hns
-      | dd => simp only [consume] at h; exact ih _ _ h hns
-      | O act o ex =>
-        cases act with
-        | none => simp only [consume] at h; exact ih _ _ h hns
-        | some i =>
-          cases ex with
-          | some x =>
-            simp only [consume] at h
-            split at h
-            · cases h
-            · split at h
-              · split at h <;> cases h
-              · split at h
-                · split at h
-                  · cases ht : takeAction fenv tbl st i o [x] with
-                    | error e1 => rw [ht] at h; cases h
-                    | ok st2 => rw [ht] at h; exact ih _ _ h (takeAction_nsOk _ _ _ _ _ _ _ ht hns)
-                  · cases h
-                · cases ht : takeAction fenv tbl st i o [x] with
-                  | error e1 => rw [ht] at h; cases h
-                  | ok st2 => rw [ht] at h; exact ih _ _ h (takeAction_nsOk _ _ _ _ _ _ _ ht hns)
-          | none =>
-            simp only [consume] at h
-            cases hact : tbl[i]? with
-            | none => rw [hact] at h; cases h
-            | some act =>
-              rw [hact] at h
-              simp only at h
-              by_cases hkind : act.kind = .help
-              · simp only [hkind, ↓reduceIte] at h; cases h
-              · simp only [hkind, ↓reduceIte] at h
-                cases hm : matchCount act.nargs (ps.map (·.2)) with
-                | none => rw [hm] at h; cases h
-                | some k =>
-                  rw [hm] at h
-                  simp only at h
-                  cases ht : takeAction fenv tbl st i o ((ps.take k).map (·.1)) with
-                  | error e1 => rw [ht] at h; cases h
-                  | ok st2 => rw [ht] at h; exact ih _ _ h (takeAction_nsOk _ _ _ _ _ _ _ ht hns)
+    NsOk fenv tbl st'.ns :=
+  consume_inv fenv tbl l (fun s => NsOk fenv tbl s.ns)
+    (by
+      intro s p rest s2 r2 _ hs hst
+      rcases hst.cases' with h1 | ⟨i, o, ex, ac, args, _, hact, _, har, htk⟩
+      · subst h1; exact hs
+      · exact takeAction_nsOk fenv tbl s s2 i o args htk hs
+          (by intro a2 h2; rw [hact] at h2; cases h2; exact har))
+    fuel st st' l (fun _ hp => hp) h hns
 
 theorem initNs_nsOk (fenv : FEnv) (tbl : List Act) : NsOk fenv tbl (initNs tbl) := by
   unfold initNs
@@ -1841,5 +1855,3088 @@ example : Aligned tupTbl [0] := ⟨rfl, by
     subst hc
     rfl
   | _ + 1, h => simp [tupTbl] at h⟩
+
+/-! ### 7. every outcome accounted for: the model's escape hatches are dead code -/
+
+theorem lookup_mem {β : Type} (l : List (Str × β)) (k : Str) (v : β) (h : l.lookup k = some v) :
+    (k, v) ∈ l := by
+  induction l with
+  | nil => simp [List.lookup] at h
+  | cons p ps ih =>
+    obtain ⟨a, b⟩ := p
+    simp only [List.lookup] at h
+    split at h
+    · rename_i heq
+      simp only [Option.some.injEq] at h
+      subst h
+      have : k = a := by simpa using heq
+      subst this
+      simp
+    · exact List.mem_cons_of_mem _ (ih h)
+
+/-- an entry of `_option_string_actions` is an option string of the action with that index -/
+theorem mem_optTable_idx (tbl : List Act) (o : Str) (i : Nat) (h : (o, i) ∈ optTable tbl) :
+    ∃ act, tbl[i]? = some act ∧ o ∈ act.opts := by
+  unfold optTable at h
+  rw [List.mem_flatMap] at h
+  obtain ⟨⟨a, j⟩, haj, hp⟩ := h
+  rw [List.mem_map] at hp
+  obtain ⟨o', ho', heq⟩ := hp
+  simp only [Prod.mk.injEq] at heq
+  obtain ⟨rfl, rfl⟩ := heq
+  exact ⟨a, List.mem_zipIdx_iff_getElem?.mp haj, ho'⟩
+
+theorem optionTuples_mem (ot : List (Str × Nat)) (arg : Str) (x : Nat × Str × Option Str)
+    (h : x ∈ optionTuples ot arg) : (x.2.1, x.1) ∈ ot := by
+  unfold optionTuples at h
+  split at h
+  · simp only [List.mem_map, List.mem_filter] at h
+    obtain ⟨p, ⟨hp, _⟩, rfl⟩ := h
+    exact hp
+  · simp only [List.mem_filterMap] at h
+    obtain ⟨p, hp, hx⟩ := h
+    split at hx
+    · simp only [Option.some.injEq] at hx; subst hx; exact hp
+    · split at hx
+      · simp only [Option.some.injEq] at hx; subst hx; exact hp
+      · cases hx
+  · cases h
+
+/-- **the lexer only attaches tokens to real actions**: an owned option token carries an option
+    string of the action it names -/
+theorem classify_O_sound (tbl : List Act) (arg : Str) (i : Nat) (o : Str) (ex : Option Str)
+    (h : classify tbl arg = .ok (.O (some i) o ex)) : (o, i) ∈ optTable tbl := by
+  unfold classify at h
+  simp only at h
+  split at h
+  · cases h
+  · split at h
+    · cases h
+    · split at h
+      · rename_i j hl
+        simp only [Except.ok.injEq, Tok.O.injEq, Option.some.injEq] at h
+        obtain ⟨rfl, rfl, _⟩ := h
+        exact lookup_mem _ _ _ hl
+      · split at h
+        · cases h
+        · split at h
+          · rename_i t ht
+            simp only [Except.ok.injEq] at h
+            subst h
+            split at ht
+            · split at ht
+              · rename_i j hl
+                simp only [Option.some.injEq, Tok.O.injEq] at ht
+                obtain ⟨rfl, rfl, _⟩ := ht
+                exact lookup_mem _ _ _ hl
+              · cases ht
+            · cases ht
+          · split at h
+            · cases h
+            · rename_i j o' e' hot
+              simp only [Except.ok.injEq, Tok.O.injEq, Option.some.injEq] at h
+              obtain ⟨rfl, rfl, _⟩ := h
+              have := optionTuples_mem (optTable tbl) _ (j, o', e') (by rw [hot]; simp)
+              exact this
+            · split at h
+              · cases h
+              · split at h <;> cases h
+
+theorem lexAll_O_sound (tbl : List Act) : ∀ (argv : List Str) (toks : List Tok),
+    lexAll tbl argv = .ok toks → ∀ i o ex, Tok.O (some i) o ex ∈ toks → (o, i) ∈ optTable tbl := by
+  intro argv
+  induction argv with
+  | nil => intro toks h; simp only [lexAll, Except.ok.injEq] at h; subst h; simp
+  | cons a rest ih =>
+    intro toks h i o ex hm
+    simp only [lexAll] at h
+    split at h
+    · simp only [Except.ok.injEq] at h
+      subst h
+      simp at hm
+    · cases hc : classify tbl a with
+      | error e => rw [hc] at h; cases h
+      | ok t =>
+        rw [hc] at h
+        simp only at h
+        cases hr : lexAll tbl rest with
+        | error e => rw [hr] at h; cases h
+        | ok ts =>
+          rw [hr] at h
+          simp only [Except.ok.injEq] at h
+          subst h
+          rcases List.mem_cons.mp hm with hm | hm
+          · subst hm; exact classify_O_sound tbl a i o ex hc
+          · exact ih ts hr i o ex hm
+
+/-- (`lexAll_idx`) every owned option token names an index inside the table -/
+theorem lexAll_idx (tbl : List Act) (argv : List Str) (toks : List Tok)
+    (h : lexAll tbl argv = .ok toks) (i : Nat) (o : Str) (ex : Option Str)
+    (hm : Tok.O (some i) o ex ∈ toks) : ∃ act, tbl[i]? = some act ∧ o ∈ act.opts :=
+  mem_optTable_idx tbl o i (lexAll_O_sound tbl argv toks h i o ex hm)
+
+
+/-- failures of a `type=` / `choices=` check -/
+def ConvErr (e : EOut) : Prop :=
+  e = .exit 2 .type ∨ e = .exit 2 .choice ∨ (∃ x, e = .raise x) ∨
+    e = .unmodelled "type conversion outside the modelled fragment"
+
+theorem getValue_err_cases (fenv : FEnv) (act : Act) (i : Nat) (cs : List Nat) (s : Str) (e : EOut)
+    (h : getValue fenv act i cs s = .error e) : ConvErr e := by
+  unfold getValue at h
+  simp only at h
+  split at h
+  · cases h; exact Or.inl rfl
+  · cases h; exact Or.inr (Or.inr (Or.inl ⟨_, rfl⟩))
+  · cases h; exact Or.inr (Or.inr (Or.inr rfl))
+  · split at h
+    · split at h
+      · split at h
+        · cases h
+        · cases h; exact Or.inr (Or.inl rfl)
+      · cases h; exact Or.inr (Or.inl rfl)
+    · cases h
+
+theorem getValuesList_err_cases (fenv : FEnv) (act : Act) (i : Nat) (cs : List Nat)
+    (toks : List Str) (e : EOut) (h : getValuesList fenv act i cs toks = .error e) : ConvErr e := by
+  induction toks generalizing cs with
+  | nil => simp [getValuesList] at h
+  | cons t ts ih =>
+    simp only [getValuesList] at h
+    cases h1 : getValue fenv act i cs t with
+    | error e1 => rw [h1] at h; cases h; exact getValue_err_cases fenv act i cs t e h1
+    | ok p =>
+      obtain ⟨v, c1⟩ := p
+      rw [h1] at h
+      simp only at h
+      cases h2 : getValuesList fenv act i c1 ts with
+      | error e2 => rw [h2] at h; cases h; exact ih c1 h2
+      | ok q => rw [h2] at h; cases h
+
+theorem getValues_err_cases (fenv : FEnv) (act : Act) (i : Nat) (cs : List Nat) (toks : List Str)
+    (e : EOut) (h : getValues fenv act i cs toks = .error e) : ConvErr e := by
+  rw [getValues_ok_iff] at h
+  cases h1 : getValuesList fenv act i cs toks with
+  | error e1 => rw [h1] at h; cases h; exact getValuesList_err_cases fenv act i cs toks e h1
+  | ok p => rw [h1] at h; cases h
+
+/-- a failed `take_action` of a non-help action: a conversion failure, the negative-flag error, or
+    the (for well-formed tables dead) ValueError of `BooleanOptionalAction` -/
+theorem takeAction_err_cases (fenv : FEnv) (tbl : List Act) (st : St) (i : Nat) (o : Str)
+    (args : List Str) (e : EOut) (act : Act) (hact : tbl[i]? = some act) (hk : act.kind ≠ .help)
+    (h : takeAction fenv tbl st i o args = .error e) : ConvErr e ∨ e = .exit 2 .negflag := by
+  unfold takeAction at h
+  rw [hact] at h
+  simp only at h
+  cases hkind : act.kind with
+  | help => exact absurd hkind hk
+  | store =>
+    rw [hkind] at h
+    simp only at h
+    cases h1 : getValues fenv act i st.counters args with
+    | error e1 => rw [h1] at h; cases h; exact Or.inl (getValues_err_cases _ _ _ _ _ _ h1)
+    | ok p => rw [h1] at h; cases h
+  | boolOpt negs =>
+    rw [hkind] at h
+    simp only at h
+    cases h1 : getValues fenv act i st.counters args with
+    | error e1 => rw [h1] at h; cases h; exact Or.inl (getValues_err_cases _ _ _ _ _ _ h1)
+    | ok p =>
+      obtain ⟨v, cs⟩ := p
+      rw [h1] at h
+      simp only at h
+      split at h
+      · cases h
+      · split at h
+        · cases h; exact Or.inr rfl
+        · cases h
+      · cases h; exact Or.inl (Or.inr (Or.inr (Or.inl ⟨_, rfl⟩)))
+
+theorem finish_err_cases (fenv : FEnv) (tbl : List Act) (st : St) (l : List (Act × Nat)) (e : EOut)
+    (h : finish fenv tbl st l = .error e) :
+    e = .exit 2 .required ∨ e = .exit 2 .type ∨ (∃ x, e = .raise x) ∨
+      e = .unmodelled "default conversion" := by
+  induction l generalizing st with
+  | nil => simp [finish] at h
+  | cons p ps ih =>
+    obtain ⟨a, i⟩ := p
+    rw [finish] at h
+    split at h
+    · exact ih _ h
+    · split at h
+      · cases h; exact Or.inl rfl
+      · split at h
+        · split at h
+          · split at h
+            · exact ih _ h
+            · cases h; exact Or.inr (Or.inl rfl)
+            · cases h; exact Or.inr (Or.inr (Or.inl ⟨_, rfl⟩))
+            · cases h; exact Or.inr (Or.inr (Or.inr rfl))
+          · exact ih _ h
+        · exact ih _ h
+
+/-- the reasons for which the model may answer "outside the modelled fragment" -/
+def ConversionWhy (w : String) : Prop :=
+  w = "type conversion outside the modelled fragment" ∨ w = "default conversion" ∨
+    w = "single-dash cluster"
+
+/-- where a failure of `run` (not strict) comes from -/
+theorem run_err_cases (fenv : FEnv) (tbl : List Act) (cs : List Nat) (argv : List Str) :
+    (∃ ns ex cs', run fenv tbl cs argv = .ok ns ex cs') ∨
+    run fenv tbl cs argv = .exit 2 .ambiguous ∨
+    (∃ e, run fenv tbl cs argv = e ∧
+      (e = .exit 2 .required ∨ e = .exit 2 .type ∨ (∃ x, e = .raise x) ∨
+        e = .unmodelled "default conversion")) ∨
+    (∃ toks a i o ex act, lexAll tbl argv = .ok toks ∧ (a, Tok.O (some i) o ex) ∈ argv.zip toks ∧
+      tbl[i]? = some act ∧
+      ((act.kind = .help ∧ (run fenv tbl cs argv = .exit 0 .help ∨
+          run fenv tbl cs argv = .exit 2 .explicit ∨
+          run fenv tbl cs argv = .unmodelled "single-dash cluster")) ∨
+       (act.kind ≠ .help ∧ (run fenv tbl cs argv = .exit 2 .nargs ∨
+          ConvErr (run fenv tbl cs argv) ∨ run fenv tbl cs argv = .exit 2 .negflag)))) := by
+  unfold run
+  cases hlex : lexAll tbl argv with
+  | error e => right; left; rfl
+  | ok toks =>
+    dsimp only
+    cases hc : consume fenv tbl (argv.length + 1)
+        { ns := initNs tbl, extras := [], seen := [], counters := cs } (argv.zip toks) with
+    | error e =>
+      dsimp only
+      right; right; right
+      have hlen : (argv.zip toks).length ≤ argv.length + 1 := by
+        simp only [List.length_zip]; omega
+      obtain ⟨a, i, o, ex, hm, herr⟩ := consume_err_trace fenv tbl _ _ _ e hlen hc
+      obtain ⟨act, hact, _⟩ := lexAll_idx tbl argv toks hlex i o ex (List.of_mem_zip hm).2
+      refine ⟨toks, a, i, o, ex, act, rfl, hm, hact, ?_⟩
+      rcases herr with ⟨hnone, _⟩ | ⟨act', hact', hcase⟩
+      · rw [hact] at hnone; cases hnone
+      · rw [hact] at hact'; cases hact'
+        rcases hcase with ⟨hk, he⟩ | ⟨hk, he⟩
+        · exact Or.inl ⟨hk, he⟩
+        · right
+          refine ⟨hk, ?_⟩
+          rcases he with he | ⟨st1, args, ht⟩
+          · exact Or.inl he
+          · rcases takeAction_err_cases fenv tbl st1 i o args e act hact hk ht with h1 | h1
+            · exact Or.inr (Or.inl h1)
+            · exact Or.inr (Or.inr h1)
+    | ok st =>
+      dsimp only
+      cases hf : finish fenv tbl st tbl.zipIdx with
+      | error e =>
+        dsimp only
+        right; right; left
+        exact ⟨e, rfl, finish_err_cases fenv tbl st _ e hf⟩
+      | ok st2 => left; exact ⟨_, _, _, rfl⟩
+
+theorem runStrict_eq_run_of_not_ok (fenv : FEnv) (tbl : List Act) (cs : List Nat) (argv : List Str)
+    (h : ∀ ns ex cs', run fenv tbl cs argv ≠ .ok ns ex cs') :
+    runStrict fenv tbl cs argv = run fenv tbl cs argv := by
+  unfold runStrict
+  split
+  · rename_i heq; exact absurd heq (h _ _ _)
+  · rename_i heq; exact absurd heq (h _ _ _)
+  · rfl
+
+/-- **C04 (no silent escape hatch).** Whenever the model answers "outside the modelled fragment"
+    for a command line, the reason is a `type=` conversion outside the fragment (non-ASCII digits,
+    a float token missing from the table, a path needing normalisation) — of a value or of a string
+    default — or a single-dash cluster on the help option.  The `fuel` bound of the loop and the
+    `bad action index` branches are unreachable: the loop always has enough fuel and the lexer only
+    emits indices of real actions. -/
+theorem c04_unmodelled_reasons (fenv : FEnv) (tbl : List Act) (cs : List Nat) (argv : List Str)
+    (w : String) (h : runStrict fenv tbl cs argv = .unmodelled w) : ConversionWhy w := by
+  have hrun : run fenv tbl cs argv = .unmodelled w := by
+    unfold runStrict at h
+    split at h
+    · cases h
+    · cases h
+    · exact h
+  rcases run_err_cases fenv tbl cs argv with ⟨ns, ex, cs', hok⟩ | hamb | ⟨e, he, hcase⟩ | ⟨toks, a, i, o, ex, act, _, _, _, hcase⟩
+  · rw [hok] at hrun; cases hrun
+  · rw [hamb] at hrun; cases hrun
+  · rw [hrun] at he; subst he
+    rcases hcase with h1 | h1 | ⟨x, h1⟩ | h1
+    · cases h1
+    · cases h1
+    · cases h1
+    · cases h1; exact Or.inr (Or.inl rfl)
+  · rw [hrun] at hcase
+    rcases hcase with ⟨_, h1 | h1 | h1⟩ | ⟨_, h1 | h1 | h1⟩
+    · cases h1
+    · cases h1
+    · cases h1; exact Or.inr (Or.inr rfl)
+    · cases h1
+    · rcases h1 with h1 | h1 | ⟨x, h1⟩ | h1
+      · cases h1
+      · cases h1
+      · cases h1
+      · cases h1; exact Or.inl rfl
+    · cases h1
+
+/-- **C04 (status 0 needs a help token).** The engine exits with status 0 only if the lexer found a
+    token owned by a help action on the command line (`-h`, `--help` or an abbreviation of it). -/
+theorem c04_exit0_needs_help_token (fenv : FEnv) (tbl : List Act) (cs : List Nat) (argv : List Str)
+    (k : ExitKind) (h : runStrict fenv tbl cs argv = .exit 0 k) :
+    ∃ toks a i o ex act, lexAll tbl argv = .ok toks ∧ (a, Tok.O (some i) o ex) ∈ argv.zip toks ∧
+      tbl[i]? = some act ∧ act.kind = .help := by
+  have hrun : run fenv tbl cs argv = .exit 0 k := by
+    unfold runStrict at h
+    split at h
+    · cases h
+    · cases h
+    · exact h
+  rcases run_err_cases fenv tbl cs argv with ⟨ns, ex, cs', hok⟩ | hamb | ⟨e, he, hcase⟩ | ⟨toks, a, i, o, ex, act, hlex, hm, hact, hcase⟩
+  · rw [hok] at hrun; cases hrun
+  · rw [hamb] at hrun; cases hrun
+  · rw [hrun] at he; subst he
+    rcases hcase with h1 | h1 | ⟨x, h1⟩ | h1 <;> cases h1
+  · rw [hrun] at hcase
+    rcases hcase with ⟨hk, _⟩ | ⟨_, h1 | h1 | h1⟩
+    · exact ⟨toks, a, i, o, ex, act, hlex, hm, hact, hk⟩
+    · cases h1
+    · rcases h1 with h1 | h1 | ⟨x, h1⟩ | h1 <;> cases h1
+    · cases h1
+
+/-- no token of the command line is owned by a help action -/
+def NoHelpToken (tbl : List Act) (argv : List Str) : Prop :=
+  ∀ toks i o ex act, lexAll tbl argv = .ok toks → Tok.O (some i) o ex ∈ toks →
+    tbl[i]? = some act → act.kind ≠ .help
+
+/-- **C04 (rejected means status 2).** On a well-formed table (every table simple-parsing builds,
+    `tableOf_noRaiseTbl`) and a command line without help token, "not accepted" IS "exit status 2"
+    — up to type conversions outside the modelled fragment. Composes with every rejection theorem
+    (`c04_unknown_rejected`, `c04_missing_required_any`, `c04_negflag_*`, `c04_arity_*`,
+    `c04_bad_value_*`), which conclude `≠ .ok`. -/
+theorem c04_rejection_is_status2 (fenv : FEnv) (tbl : List Act) (hw : NoRaiseTbl tbl)
+    (cs : List Nat) (argv : List Str) (hnh : NoHelpToken tbl argv)
+    (hrej : ∀ ns ex cs', runStrict fenv tbl cs argv ≠ .ok ns ex cs') :
+    (∃ k, runStrict fenv tbl cs argv = .exit 2 k) ∨
+      ∃ w, runStrict fenv tbl cs argv = .unmodelled w ∧ ConversionWhy w := by
+  cases hr : runStrict fenv tbl cs argv with
+  | ok ns ex cs' => exact absurd hr (hrej ns ex cs')
+  | exit c k =>
+    rcases c04_status fenv tbl cs argv c k hr with h2 | ⟨h0, _, _⟩
+    · subst h2; exact Or.inl ⟨k, rfl⟩
+    · subst h0
+      obtain ⟨toks, a, i, o, ex, act, hlex, hm, hact, hk⟩ := c04_exit0_needs_help_token fenv tbl cs argv k hr
+      exact absurd hk (hnh toks i o ex act hlex (List.of_mem_zip hm).2 hact)
+  | raise x => exact absurd hr (c04_no_traceback_partial fenv tbl hw cs argv x)
+  | unmodelled w => exact Or.inr ⟨w, rfl, c04_unmodelled_reasons fenv tbl cs argv w hr⟩
+
+/-! ### 8. rejection wherever the offending token stands — statements over ARBITRARY command lines
+    (no canonical shape, no `render`): the loop reaches every owned option token (`consume_reaches`) -/
+
+/-- what an accepted strict parse went through -/
+theorem runStrict_ok_consume (fenv : FEnv) (tbl : List Act) (cs : List Nat) (argv : List Str)
+    (ns : List (Str × Val)) (ex : List Str) (cs' : List Nat)
+    (h : runStrict fenv tbl cs argv = .ok ns ex cs') :
+    ∃ toks st st2, lexAll tbl argv = .ok toks ∧
+      consume fenv tbl (argv.length + 1)
+        { ns := initNs tbl, extras := [], seen := [], counters := cs } (argv.zip toks) = .ok st ∧
+      finish fenv tbl st tbl.zipIdx = .ok st2 ∧ st.extras = [] ∧
+      ns = st2.ns ∧ cs' = st2.counters := by
+  unfold runStrict at h
+  cases hr : run fenv tbl cs argv with
+  | ok ns2 ex2 cs2 =>
+    rw [hr] at h
+    cases ex2 with
+    | cons x xs => simp at h
+    | nil =>
+      simp only [EOut.ok.injEq] at h
+      obtain ⟨rfl, _, rfl⟩ := h
+      unfold run at hr
+      cases hlex : lexAll tbl argv with
+      | error e => rw [hlex] at hr; cases hr
+      | ok toks =>
+        rw [hlex] at hr
+        dsimp only at hr
+        cases hc : consume fenv tbl (argv.length + 1)
+            { ns := initNs tbl, extras := [], seen := [], counters := cs } (argv.zip toks) with
+        | error e =>
+          rw [hc] at hr; dsimp only at hr
+          have := consume_err _ _ _ _ _ _ hc
+          rw [hr] at this; exact absurd this (by simp [GoodErr])
+        | ok st =>
+          rw [hc] at hr; dsimp only at hr
+          cases hf : finish fenv tbl st tbl.zipIdx with
+          | error e =>
+            rw [hf] at hr; dsimp only at hr
+            have := finish_err _ _ _ _ _ hf
+            rw [hr] at this; exact absurd this (by simp [GoodErr])
+          | ok st2 =>
+            rw [hf] at hr; dsimp only at hr
+            simp only [EOut.ok.injEq] at hr
+            obtain ⟨h1, h2, h3⟩ := hr
+            refine ⟨toks, st, st2, rfl, hc, hf, ?_, h1.symm, h3.symm⟩
+            rw [← (finish_extras fenv tbl st st2 _ hf).1]
+            exact h2
+  | exit c k => rw [hr] at h; simp at h
+  | raise e => rw [hr] at h; simp at h
+  | unmodelled w => rw [hr] at h; simp at h
+
+/-- (`consume_seen`) an action is marked as seen only because one of its option tokens is on the
+    command line -/
+theorem consume_seen (fenv : FEnv) (tbl : List Act) (fuel : Nat) (st st' : St)
+    (l : List (Str × Tok)) (h : consume fenv tbl fuel st l = .ok st') (j : Nat) (hj : j ∈ st'.seen) :
+    j ∈ st.seen ∨ ∃ a o ex, (a, Tok.O (some j) o ex) ∈ l := by
+  have key := consume_inv fenv tbl l
+    (fun s => ∀ j, j ∈ s.seen → j ∈ st.seen ∨ ∃ a o ex, (a, Tok.O (some j) o ex) ∈ l)
+    (by
+      intro s p rest s2 rest2 hp hs hstep j hj
+      obtain ⟨a, t⟩ := p
+      cases hsk : t.isSkip with
+      | true =>
+        obtain ⟨h1, _⟩ := hstep.inv_skip hsk
+        subst h1
+        exact hs j hj
+      | false =>
+        obtain ⟨i, o, ex, rfl⟩ := Tok.isSkip_false hsk
+        have hseen : s2.seen = i :: s.seen := by
+          cases ex with
+          | some e =>
+            obtain ⟨_, _, _, _, ht, _⟩ := hstep.inv_some
+            exact takeAction_seen _ _ _ _ _ _ _ ht
+          | none =>
+            obtain ⟨_, _, _, _, _, ht, _⟩ := hstep.inv_none
+            exact takeAction_seen _ _ _ _ _ _ _ ht
+        rw [hseen] at hj
+        rcases List.mem_cons.mp hj with rfl | hj
+        · exact Or.inr ⟨a, o, ex, hp⟩
+        · exact hs j hj)
+    fuel st st' l (fun _ hp => hp) h (fun j hj => Or.inl hj)
+  exact key j hj
+
+/-- **C04 (missing required option), for EVERY command line.** If no token of the command line is
+    lexed as an option string of a required action — whatever else the command line contains, in
+    whatever order, abbreviated or not, with `--` or without — `parse_args` does not accept it. -/
+theorem c04_missing_required_any (fenv : FEnv) (tbl : List Act) (cs : List Nat) (argv : List Str)
+    (a : Act) (i : Nat) (hmem : (a, i) ∈ tbl.zipIdx) (hreq : a.required = true)
+    (hno : ∀ toks o e, lexAll tbl argv = .ok toks → Tok.O (some i) o e ∉ toks)
+    (ns : List (Str × Val)) (ex : List Str) (cs' : List Nat) :
+    runStrict fenv tbl cs argv ≠ .ok ns ex cs' := by
+  intro h
+  obtain ⟨toks, st, st2, hlex, hc, hf, _, _, _⟩ := runStrict_ok_consume fenv tbl cs argv ns ex cs' h
+  have hseen : st.seen.contains i = false := by
+    cases hb : st.seen.contains i with
+    | false => rfl
+    | true =>
+      have hi : i ∈ st.seen := by simpa using hb
+      rcases consume_seen fenv tbl _ _ st _ hc i hi with h1 | ⟨a', o, e, hm⟩
+      · simp at h1
+      · exact absurd (List.of_mem_zip hm).2 (hno toks o e hlex)
+  obtain ⟨e, he⟩ := finish_required fenv tbl st tbl.zipIdx a i hmem hreq hseen
+  rw [he] at hf
+  cases hf
+
+/-- non-vacuity: `--l a b` never mentions the required `--n` of `demoTbl` -/
+example : ∀ ns ex cs', runStrict [] demoTbl [0, 0, 0] ["--l".toList, "a".toList, "b".toList] ≠ .ok ns ex cs' :=
+  c04_missing_required_any [] demoTbl [0, 0, 0] _ (demoTbl[1]'(by decide)) 1 (by decide) rfl
+    (by intro toks o e hlex; have : toks = [.O (some 2) "--l".toList none, .A, .A] := by
+          have h2 : lexAll demoTbl ["--l".toList, "a".toList, "b".toList] =
+            .ok [.O (some 2) "--l".toList none, .A, .A] := by rfl
+          rw [h2] at hlex; cases hlex; rfl
+        subst this; simp)
+
+/-- the loop arrives at every owned option token of an accepted command line -/
+theorem accepted_reaches (fenv : FEnv) (tbl : List Act) (cs : List Nat) (argv : List Str)
+    (ns : List (Str × Val)) (ex : List Str) (cs' : List Nat)
+    (h : runStrict fenv tbl cs argv = .ok ns ex cs') (P : St → Prop)
+    (hP : ∀ st p rest st2 rest2, P st → Step fenv tbl st p rest st2 rest2 → P st2)
+    (hP0 : P { ns := initNs tbl, extras := [], seen := [], counters := cs })
+    (toks : List Tok) (hlex : lexAll tbl argv = .ok toks)
+    (pre : List (Str × Tok)) (x : Str × Tok) (post : List (Str × Tok)) (hx : x.2 ≠ .A)
+    (hz : argv.zip toks = pre ++ x :: post) :
+    ∃ st1 st2 rest2 fuel st', P st1 ∧ Step fenv tbl st1 x post st2 rest2 ∧
+      consume fenv tbl fuel st2 rest2 = .ok st' ∧ st'.extras = [] := by
+  obtain ⟨toks', st, st2, hlex', hc, _, hex, _, _⟩ := runStrict_ok_consume fenv tbl cs argv ns ex cs' h
+  rw [hlex] at hlex'; cases hlex'
+  rw [hz] at hc
+  obtain ⟨fuel1, st1, hp1, hc1⟩ := consume_reaches fenv tbl P hP _ _ st pre x post hx hc hP0
+  obtain ⟨s2, r2, hstep, hc2⟩ := consume_ok_step fenv tbl fuel1 st1 st x post hc1
+  exact ⟨st1, s2, r2, fuel1, st, hp1, hstep, hc2, hex⟩
+
+/-! #### a value on a negative flag -/
+
+/-- (`takeAction_negflag`) `BooleanOptionalAction.__call__` with a negative option string and a
+    value: an error with status 2 — the value is not a boolean word (type error), or it is and the
+    negative-flag rule refuses it -/
+theorem takeAction_negflag (fenv : FEnv) (tbl : List Act) (st : St) (i : Nat) (o x : Str)
+    (act : Act) (negs : List Str) (hact : tbl[i]? = some act) (hk : act.kind = .boolOpt negs)
+    (hn : act.nargs = .opt) (hc : act.conv = .base .bool) (ho : negs.contains o = true) :
+    ∃ k, takeAction fenv tbl st i o [x] = .error (.exit 2 k) := by
+  unfold takeAction
+  rw [hact]
+  simp only [hk]
+  unfold getValues
+  rw [hn]
+  simp only
+  unfold getValue
+  simp only [hc, Conv.apply, BConv.apply]
+  cases hb : str2bool x with
+  | none => exact ⟨.type, rfl⟩
+  | some b =>
+    simp only
+    cases hch : act.choices with
+    | some ch => exact ⟨.choice, rfl⟩
+    | none => simp only [Except.map, ho, ↓reduceIte]; exact ⟨.negflag, rfl⟩
+
+/-- **C04 (value on a negative flag, `--noflag=x`), for EVERY command line.** If anywhere on the
+    command line a token is lexed as a negative option string of a boolean action with an explicit
+    `=value`, the command line is not accepted. -/
+theorem c04_negflag_eq_rejected (fenv : FEnv) (tbl : List Act) (hw : NoRaiseTbl tbl)
+    (cs : List Nat) (argv : List Str) (toks : List Tok) (hlex : lexAll tbl argv = .ok toks)
+    (a : Str) (i : Nat) (o x : Str) (act : Act) (negs : List Str)
+    (hm : (a, Tok.O (some i) o (some x)) ∈ argv.zip toks)
+    (hact : tbl[i]? = some act) (hk : act.kind = .boolOpt negs) (ho : negs.contains o = true)
+    (ns : List (Str × Val)) (ex : List Str) (cs' : List Nat) :
+    runStrict fenv tbl cs argv ≠ .ok ns ex cs' := by
+  intro h
+  obtain ⟨pre, post, hz⟩ := List.append_of_mem hm
+  obtain ⟨st1, st2, rest2, fuel, st', _, hstep, _, _⟩ :=
+    accepted_reaches fenv tbl cs argv ns ex cs' h (fun _ => True) (fun _ _ _ _ _ _ _ => trivial)
+      trivial toks hlex pre _ post (by simp) hz
+  obtain ⟨act', hact', _, _, ht, _⟩ := hstep.inv_some
+  obtain ⟨hn, hc⟩ := hw.boolwf act (List.mem_of_getElem? hact) negs hk
+  obtain ⟨k, hk2⟩ := takeAction_negflag fenv tbl st1 i o x act negs hact hk hn hc ho
+  rw [hk2] at ht
+  cases ht
+
+/-- **C04 (value on a negative flag, `--noflag x`), for EVERY command line.** A negative option
+    string of a boolean action directly followed by an argument token: not accepted. -/
+theorem c04_negflag_space_rejected (fenv : FEnv) (tbl : List Act) (hw : NoRaiseTbl tbl)
+    (cs : List Nat) (argv : List Str) (toks : List Tok) (hlex : lexAll tbl argv = .ok toks)
+    (pre post : List (Str × Tok)) (a : Str) (i : Nat) (o x : Str) (act : Act) (negs : List Str)
+    (hz : argv.zip toks = pre ++ (a, Tok.O (some i) o none) :: (x, Tok.A) :: post)
+    (hact : tbl[i]? = some act) (hk : act.kind = .boolOpt negs) (ho : negs.contains o = true)
+    (ns : List (Str × Val)) (ex : List Str) (cs' : List Nat) :
+    runStrict fenv tbl cs argv ≠ .ok ns ex cs' := by
+  intro h
+  obtain ⟨st1, st2, rest2, fuel, st', _, hstep, _, _⟩ :=
+    accepted_reaches fenv tbl cs argv ns ex cs' h (fun _ => True) (fun _ _ _ _ _ _ _ => trivial)
+      trivial toks hlex pre _ ((x, Tok.A) :: post) (by simp) hz
+  obtain ⟨act', k, hact', _, hmc, ht, _⟩ := hstep.inv_none
+  rw [hact] at hact'; cases hact'
+  obtain ⟨hn, hc⟩ := hw.boolwf act (List.mem_of_getElem? hact) negs hk
+  rw [hn] at hmc
+  have hk1 : k = 1 := by
+    simp only [matchCount, List.map_cons, countA, Option.some.injEq] at hmc
+    omega
+  subst hk1
+  simp only [List.take_succ_cons, List.take_zero, List.map_cons, List.map_nil] at ht
+  obtain ⟨k2, hk2⟩ := takeAction_negflag fenv tbl st1 i o x act negs hact hk hn hc ho
+  rw [hk2] at ht
+  cases ht
+
+/-! #### wrong arity for a fixed-length tuple -/
+
+/-- the value tokens of one option occurrence, as (argument string, token) pairs -/
+def argToks (vals : List Str) : List (Str × Tok) := vals.map (fun v => (v, Tok.A))
+
+/-- the input after the value tokens does not continue with another argument token -/
+def Stops (post : List (Str × Tok)) : Prop := ∀ p ps, post = p :: ps → p.2 ≠ .A
+
+theorem countA_argToks (vals : List Str) (post : List (Str × Tok)) (hs : Stops post) :
+    countA ((argToks vals ++ post).map (·.2)) = vals.length := by
+  induction vals with
+  | nil =>
+    simp only [argToks, List.map_nil, List.nil_append, List.length_nil]
+    cases post with
+    | nil => rfl
+    | cons p ps =>
+      have := hs p ps rfl
+      obtain ⟨a, t⟩ := p
+      cases t with
+      | A => exact absurd rfl this
+      | dd => rfl
+      | O _ _ _ => rfl
+  | cons v vs ih =>
+    simp only [argToks, List.map_cons, List.cons_append, countA, List.length_cons] at ih ⊢
+    rw [ih]
+
+theorem countA_argToks_ge (vals : List Str) (post : List (Str × Tok)) :
+    vals.length ≤ countA ((argToks vals ++ post).map (·.2)) := by
+  induction vals with
+  | nil => exact Nat.zero_le _
+  | cons v vs ih =>
+    simp only [argToks, List.map_cons, List.cons_append, countA, List.length_cons] at ih ⊢
+    omega
+
+/-- **C04 (arity −), for EVERY command line.** An option of a fixed-arity action (`nargs = m`:
+    every `Tuple[t1, …, tm]` field) followed by fewer than `m` argument tokens before the next
+    option / `--` / the end: not accepted, whatever precedes and follows. -/
+theorem c04_arity_short_rejected (fenv : FEnv) (tbl : List Act) (cs : List Nat) (argv : List Str)
+    (toks : List Tok) (hlex : lexAll tbl argv = .ok toks)
+    (pre post : List (Str × Tok)) (a : Str) (i : Nat) (o : Str) (vals : List Str) (act : Act) (m : Nat)
+    (hz : argv.zip toks = pre ++ (a, Tok.O (some i) o none) :: (argToks vals ++ post))
+    (hs : Stops post) (hact : tbl[i]? = some act) (hn : act.nargs = .num m) (hlt : vals.length < m)
+    (ns : List (Str × Val)) (ex : List Str) (cs' : List Nat) :
+    runStrict fenv tbl cs argv ≠ .ok ns ex cs' := by
+  intro h
+  obtain ⟨st1, st2, rest2, fuel, st', _, hstep, _, _⟩ :=
+    accepted_reaches fenv tbl cs argv ns ex cs' h (fun _ => True) (fun _ _ _ _ _ _ _ => trivial)
+      trivial toks hlex pre _ _ (by simp) hz
+  obtain ⟨act', k, hact', _, hmc, _, _⟩ := hstep.inv_none
+  rw [hact] at hact'; cases hact'
+  rw [hn] at hmc
+  simp only [matchCount, countA_argToks vals post hs] at hmc
+  split at hmc
+  · omega
+  · cases hmc
+
+/-- **C04 (arity +), for EVERY command line.** An option of a fixed-arity action followed by more
+    than `m` argument tokens: exactly `m` are taken, the next one is a leftover, and `parse_args`
+    rejects leftovers — the surplus is neither absorbed nor silently dropped. -/
+theorem c04_arity_long_rejected (fenv : FEnv) (tbl : List Act) (cs : List Nat) (argv : List Str)
+    (toks : List Tok) (hlex : lexAll tbl argv = .ok toks)
+    (pre post : List (Str × Tok)) (a : Str) (i : Nat) (o : Str) (vals : List Str) (act : Act) (m : Nat)
+    (hz : argv.zip toks = pre ++ (a, Tok.O (some i) o none) :: (argToks vals ++ post))
+    (hact : tbl[i]? = some act) (hn : act.nargs = .num m) (hgt : m < vals.length)
+    (ns : List (Str × Val)) (ex : List Str) (cs' : List Nat) :
+    runStrict fenv tbl cs argv ≠ .ok ns ex cs' := by
+  intro h
+  obtain ⟨st1, st2, rest2, fuel, st', _, hstep, hc2, hex⟩ :=
+    accepted_reaches fenv tbl cs argv ns ex cs' h (fun _ => True) (fun _ _ _ _ _ _ _ => trivial)
+      trivial toks hlex pre _ _ (by simp) hz
+  obtain ⟨act', k, hact', _, hmc, _, hr2⟩ := hstep.inv_none
+  rw [hact] at hact'; cases hact'
+  rw [hn] at hmc
+  obtain ⟨hkm, _⟩ := matchCount_num m _ k hmc
+  subst hkm
+  -- what is left starts with the (k+1)-th value token
+  have hdrop : rest2 = (argToks (vals.drop k)) ++ post := by
+    rw [hr2, List.drop_append_of_le_length (by simp [argToks]; omega)]
+    simp [argToks, List.map_drop]
+  obtain ⟨v, vs, hv⟩ : ∃ v vs, vals.drop k = v :: vs := by
+    cases hd : vals.drop k with
+    | nil => simp only [List.drop_eq_nil_iff] at hd; omega
+    | cons v vs => exact ⟨v, vs, rfl⟩
+  rw [hdrop, hv] at hc2
+  cases fuel with
+  | zero => simp [argToks, consume] at hc2
+  | succ f =>
+    exact c04_leftover_rejected fenv tbl f st2 st' v _ (by simpa [argToks] using hc2) hex
+
+/-- **C04 (arity, `--tup=x` form), for EVERY command line.** An explicit `=value` on an option of
+    a fixed-arity action with `m ≠ 1`: not accepted. -/
+theorem c04_arity_eq_rejected (fenv : FEnv) (tbl : List Act) (cs : List Nat) (argv : List Str)
+    (toks : List Tok) (hlex : lexAll tbl argv = .ok toks)
+    (a : Str) (i : Nat) (o x : Str) (act : Act) (m : Nat)
+    (hm : (a, Tok.O (some i) o (some x)) ∈ argv.zip toks)
+    (hact : tbl[i]? = some act) (hn : act.nargs = .num m) (hne : m ≠ 1)
+    (ns : List (Str × Val)) (ex : List Str) (cs' : List Nat) :
+    runStrict fenv tbl cs argv ≠ .ok ns ex cs' := by
+  intro h
+  obtain ⟨pre, post, hz⟩ := List.append_of_mem hm
+  obtain ⟨st1, st2, rest2, fuel, st', _, hstep, _, _⟩ :=
+    accepted_reaches fenv tbl cs argv ns ex cs' h (fun _ => True) (fun _ _ _ _ _ _ _ => trivial)
+      trivial toks hlex pre _ post (by simp) hz
+  obtain ⟨act', hact', _, har, _, _⟩ := hstep.inv_some
+  rw [hact] at hact'; cases hact'
+  rw [hn] at har
+  simp only [arityOk] at har
+  exact hne har.symm
+
+/-! #### a token that fails `type=` / `choices=` -/
+
+/-- the `j`-th argument token after an option is among those `_match_argument` hands to the action -/
+def InTake : NArgs → Nat → Prop
+  | .one, j => j = 0
+  | .opt, j => j = 0
+  | .num m, j => j < m
+  | _, _ => True
+
+theorem matchCount_covers (n : NArgs) (vals : List Str) (post : List (Str × Tok)) (k j : Nat)
+    (hj : j < vals.length) (hin : InTake n j)
+    (h : matchCount n ((argToks vals ++ post).map (·.2)) = some k) : j < k := by
+  have hge := countA_argToks_ge vals post
+  unfold matchCount at h
+  cases n with
+  | one =>
+    simp only at h
+    split at h
+    · simp only [Option.some.injEq] at h; simp only [InTake] at hin; omega
+    · cases h
+  | opt => simp only [Option.some.injEq] at h; simp only [InTake] at hin; omega
+  | star => simp only [Option.some.injEq] at h; omega
+  | plus =>
+    simp only at h
+    split at h
+    · simp only [Option.some.injEq] at h; omega
+    · cases h
+  | num m =>
+    simp only at h
+    split at h
+    · simp only [Option.some.injEq] at h; simp only [InTake] at hin; omega
+    · cases h
+
+theorem take_argToks_get (vals : List Str) (post : List (Str × Tok)) (k j : Nat) (t : Str)
+    (hjk : j < k) (ht : vals[j]? = some t) :
+    (((argToks vals ++ post).take k).map (·.1))[j]? = some t := by
+  have hj : j < vals.length := (List.getElem?_eq_some_iff.mp ht).1
+  rw [List.getElem?_map, List.getElem?_take_of_lt hjk,
+    List.getElem?_append_left (by simpa [argToks] using hj)]
+  simp [argToks, ht]
+
+/-- **C04 (ill-typed token / value outside the choices), for EVERY command line.** If the `j`-th
+    argument token after an option is one the action's `type=` / `choices=` never lets through and
+    is among the tokens the action takes, the command line is not accepted — not coerced, not
+    truncated before it, not defaulted. -/
+theorem c04_bad_value_rejected (fenv : FEnv) (tbl : List Act) (cs : List Nat) (argv : List Str)
+    (toks : List Tok) (hlex : lexAll tbl argv = .ok toks)
+    (pre post : List (Str × Tok)) (a : Str) (i : Nat) (o : Str) (vals : List Str) (act : Act)
+    (hz : argv.zip toks = pre ++ (a, Tok.O (some i) o none) :: (argToks vals ++ post))
+    (hact : tbl[i]? = some act) (j : Nat) (t : Str) (ht : vals[j]? = some t)
+    (hin : InTake act.nargs j) (hbad : NeverConverts fenv act i t)
+    (ns : List (Str × Val)) (ex : List Str) (cs' : List Nat) :
+    runStrict fenv tbl cs argv ≠ .ok ns ex cs' := by
+  intro h
+  obtain ⟨st1, st2, rest2, fuel, st', _, hstep, _, _⟩ :=
+    accepted_reaches fenv tbl cs argv ns ex cs' h (fun _ => True) (fun _ _ _ _ _ _ _ => trivial)
+      trivial toks hlex pre _ _ (by simp) hz
+  obtain ⟨act', k, hact', _, hmc, htake, _⟩ := hstep.inv_none
+  rw [hact] at hact'; cases hact'
+  have hj : j < vals.length := (List.getElem?_eq_some_iff.mp ht).1
+  have hjk := matchCount_covers act.nargs vals post k j hj hin hmc
+  have hmem : t ∈ ((argToks vals ++ post).take k).map (·.1) :=
+    List.mem_of_getElem? (take_argToks_get vals post k j t hjk ht)
+  obtain ⟨e, he⟩ := takeAction_bad fenv tbl st1 i o _ act hact t hmem hbad
+  rw [he] at htake
+  cases htake
+
+/-- the same for the `--opt=value` spelling -/
+theorem c04_bad_value_eq_rejected (fenv : FEnv) (tbl : List Act) (cs : List Nat) (argv : List Str)
+    (toks : List Tok) (hlex : lexAll tbl argv = .ok toks)
+    (a : Str) (i : Nat) (o x : Str) (act : Act)
+    (hm : (a, Tok.O (some i) o (some x)) ∈ argv.zip toks)
+    (hact : tbl[i]? = some act) (hbad : NeverConverts fenv act i x)
+    (ns : List (Str × Val)) (ex : List Str) (cs' : List Nat) :
+    runStrict fenv tbl cs argv ≠ .ok ns ex cs' := by
+  intro h
+  obtain ⟨pre, post, hz⟩ := List.append_of_mem hm
+  obtain ⟨st1, st2, rest2, fuel, st', _, hstep, _, _⟩ :=
+    accepted_reaches fenv tbl cs argv ns ex cs' h (fun _ => True) (fun _ _ _ _ _ _ _ => trivial)
+      trivial toks hlex pre _ post (by simp) hz
+  obtain ⟨act', hact', _, _, htake, _⟩ := hstep.inv_some
+  obtain ⟨e, he⟩ := takeAction_bad fenv tbl st1 i o [x] act hact x (by simp) hbad
+  rw [he] at htake
+  cases htake
+
+/-- more instances of `NeverConverts`: a non-boolean word for `str2bool`, a non-member for
+    `parse_enum`, a token every member of a Union rejects -/
+theorem never_bool (fenv : FEnv) (act : Act) (i : Nat) (t : Str) (hconv : act.conv = .base .bool)
+    (hbad : str2bool t = none) : NeverConverts fenv act i t := by
+  intro cs
+  unfold getValue
+  simp only [hconv, Conv.apply, BConv.apply, hbad]
+  exact ⟨_, rfl⟩
+
+theorem never_enum (fenv : FEnv) (act : Act) (i : Nat) (t : Str) (cls : Str) (ms : List Str)
+    (hconv : act.conv = .base (.enumName cls ms)) (hbad : ms.contains t = false) :
+    NeverConverts fenv act i t := by
+  intro cs
+  unfold getValue
+  simp only [hconv, Conv.apply, BConv.apply, hbad]
+  exact ⟨_, rfl⟩
+
+theorem never_union (fenv : FEnv) (act : Act) (i : Nat) (t : Str) (bs : List BConv)
+    (hconv : act.conv = .union bs) (hbad : unionApply fenv bs t = .typeErr) :
+    NeverConverts fenv act i t := by
+  intro cs
+  unfold getValue
+  simp only [hconv, Conv.apply, hbad]
+  exact ⟨_, rfl⟩
+
+/-! #### heterogeneous tuples: the item type is chosen by POSITION -/
+
+/-- converting a list of tokens with a `parse_tuple` closure fails as soon as the token at position
+    `j` is not accepted by the item type the counter selects for that position -/
+theorem getValuesList_bad_at (fenv : FEnv) (act : Act) (i : Nat) (bs : List BConv)
+    (hconv : act.conv = .tupleCounter bs) :
+    ∀ (toks : List Str) (cs : List Nat) (j : Nat) (t : Str), i < cs.length → toks[j]? = some t →
+      (∀ b, bs[(cs.getD i 0 + j) % bs.length]? = some b → ∀ v, b.apply fenv t ≠ .ok v) →
+      ∃ e, getValuesList fenv act i cs toks = .error e := by
+  intro toks
+  induction toks with
+  | nil => intro cs j t _ ht; simp at ht
+  | cons x xs ih =>
+    intro cs j t hi ht hbad
+    simp only [getValuesList]
+    cases hx : getValue fenv act i cs x with
+    | error e => exact ⟨e, rfl⟩
+    | ok p =>
+      obtain ⟨v, c1⟩ := p
+      simp only
+      cases j with
+      | zero =>
+        simp only [List.getElem?_cons_zero, Option.some.injEq] at ht
+        subst ht
+        exfalso
+        unfold getValue at hx
+        simp only [hconv, Conv.apply, Nat.add_zero] at hx hbad
+        cases hb : bs[cs.getD i 0 % bs.length]? with
+        | none => rw [hb] at hx; simp at hx
+        | some b =>
+          rw [hb] at hx
+          simp only at hx
+          have hb' := hbad b hb
+          cases hap : b.apply fenv x with
+          | ok w => exact hb' w hap
+          | typeErr => rw [hap] at hx; simp at hx
+          | raise e => rw [hap] at hx; simp at hx
+          | unmodelled => rw [hap] at hx; simp at hx
+      | succ j' =>
+        simp only [List.getElem?_cons_succ] at ht
+        obtain ⟨hl, hci, _⟩ := getValue_counters fenv act i cs c1 x v hi hx
+        have htc : tc act = 1 := by unfold tc; rw [hconv]
+        obtain ⟨e, he⟩ := ih c1 j' t (by rw [hl]; exact hi) ht (by
+          intro b hb
+          apply hbad b
+          rw [hci, htc] at hb
+          have : cs.getD i 0 + 1 + j' = cs.getD i 0 + (j' + 1) := by omega
+          rw [this] at hb
+          exact hb)
+        rw [he]
+        exact ⟨e, rfl⟩
+
+/-- **C04 (ill-typed item of a heterogeneous tuple), for EVERY command line.** For a
+    `Tuple[t0, …, tn-1]` action (a `parse_tuple` closure over `bs`, `nargs = n`) on a parser whose
+    closure counters are aligned (true for a new parser, and again after every accepted parse:
+    `c04_counters_aligned`): if the token at position `j` of an occurrence is not accepted by ITS
+    item type `bs[j]` — even if another position's type would accept it — the command line is not
+    accepted. -/
+theorem c04_hetero_bad_rejected (fenv : FEnv) (tbl : List Act) (cs : List Nat) (argv : List Str)
+    (hal : Aligned tbl cs)
+    (toks : List Tok) (hlex : lexAll tbl argv = .ok toks)
+    (pre post : List (Str × Tok)) (a : Str) (i : Nat) (o : Str) (vals : List Str) (act : Act)
+    (bs : List BConv)
+    (hz : argv.zip toks = pre ++ (a, Tok.O (some i) o none) :: (argToks vals ++ post))
+    (hact : tbl[i]? = some act) (hconv : act.conv = .tupleCounter bs)
+    (hn : act.nargs = .num bs.length) (j : Nat) (t : Str) (b : BConv)
+    (ht : vals[j]? = some t) (hb : bs[j]? = some b) (hbad : ∀ v, b.apply fenv t ≠ .ok v)
+    (ns : List (Str × Val)) (ex : List Str) (cs' : List Nat) :
+    runStrict fenv tbl cs argv ≠ .ok ns ex cs' := by
+  intro h
+  obtain ⟨st1, st2, rest2, fuel, st', hal1, hstep, _, _⟩ :=
+    accepted_reaches fenv tbl cs argv ns ex cs' h (fun s => Aligned tbl s.counters)
+      (by
+        intro s p rest s2 r2 hs hst
+        obtain ⟨a', t'⟩ := p
+        cases hsk : t'.isSkip with
+        | true => obtain ⟨h1, _⟩ := hst.inv_skip hsk; subst h1; exact hs
+        | false =>
+          obtain ⟨i', o', ex', rfl⟩ := Tok.isSkip_false hsk
+          cases ex' with
+          | some e' =>
+            obtain ⟨act', hact', _, har, htk, _⟩ := hst.inv_some
+            refine takeAction_aligned fenv tbl s s2 i' o' [e'] hs ?_ htk
+            intro a2 m2 ha2 hn2
+            rw [hact'] at ha2; cases ha2
+            rw [hn2] at har
+            simpa [arityOk] using har
+          | none =>
+            obtain ⟨act', k', hact', _, hmc', htk, _⟩ := hst.inv_none
+            refine takeAction_aligned fenv tbl s s2 i' o' _ hs ?_ htk
+            intro a2 m2 ha2 hn2
+            rw [hact'] at ha2; cases ha2
+            rw [hn2] at hmc'
+            obtain ⟨hk, hle⟩ := matchCount_num m2 _ k' hmc'
+            simp only [List.length_map, List.length_take] at hle ⊢
+            omega)
+      hal toks hlex pre _ _ (by simp) hz
+  obtain ⟨act', k, hact', _, hmc, htake, _⟩ := hstep.inv_none
+  rw [hact] at hact'; cases hact'
+  have hjn : j < bs.length := (List.getElem?_eq_some_iff.mp hb).1
+  have hj : j < vals.length := (List.getElem?_eq_some_iff.mp ht).1
+  have hjk := matchCount_covers act.nargs vals post k j hj (by rw [hn]; exact hjn) hmc
+  have hget := take_argToks_get vals post k j t hjk ht
+  have hi : i < st1.counters.length := by
+    rw [hal1.1]; exact (List.getElem?_eq_some_iff.mp hact).1
+  have h0 := hal1.2 i act bs hact hconv hn
+  obtain ⟨e, he⟩ := getValuesList_bad_at fenv act i bs hconv _ st1.counters j t hi hget (by
+    intro b' hb' v
+    have : (st1.counters.getD i 0 + j) % bs.length = j := by
+      rw [Nat.add_mod, h0, Nat.zero_add, Nat.mod_mod, Nat.mod_eq_of_lt hjn]
+    rw [this, hb] at hb'
+    cases hb'
+    exact hbad v)
+  -- so `take_action` fails
+  unfold takeAction at htake
+  rw [hact] at htake
+  simp only at htake
+  have hgv : ∃ e', getValues fenv act i st1.counters
+      (((argToks vals ++ post).take k).map (·.1)) = .error e' := by
+    rw [getValues_ok_iff, he]; exact ⟨e, rfl⟩
+  obtain ⟨e', he'⟩ := hgv
+  cases hk : act.kind with
+  | help => rw [hk] at htake; cases htake
+  | store => rw [hk] at htake; simp only [he'] at htake; cases htake
+  | boolOpt negs => rw [hk] at htake; simp only [he'] at htake; cases htake
+
+/-! ### 9. the lexer's verdict DERIVED from the spelling of the command line -/
+
+theorem lexAll_cons_inv (tbl : List Act) (a : Str) (rest : List Str) (toks : List Tok)
+    (ha : a ≠ ['-', '-']) (h : lexAll tbl (a :: rest) = .ok toks) :
+    ∃ t ts, toks = t :: ts ∧ classify tbl a = .ok t ∧ lexAll tbl rest = .ok ts := by
+  simp only [lexAll, ha, ↓reduceIte] at h
+  cases hc : classify tbl a with
+  | error e => rw [hc] at h; cases h
+  | ok t =>
+    rw [hc] at h
+    simp only at h
+    cases hr : lexAll tbl rest with
+    | error e => rw [hr] at h; cases h
+    | ok ts =>
+      rw [hr] at h
+      simp only [Except.ok.injEq] at h
+      exact ⟨t, ts, h.symm, rfl, rfl⟩
+
+theorem lexAll_append_inv (tbl : List Act) (pre rest : List Str) (toks : List Tok)
+    (hdd : ∀ x ∈ pre, x ≠ ['-', '-']) (h : lexAll tbl (pre ++ rest) = .ok toks) :
+    ∃ t1 t2, toks = t1 ++ t2 ∧ t1.length = pre.length ∧ lexAll tbl rest = .ok t2 := by
+  induction pre generalizing toks with
+  | nil => exact ⟨[], toks, rfl, rfl, h⟩
+  | cons x xs ih =>
+    obtain ⟨t, ts, rfl, _, hr⟩ := lexAll_cons_inv tbl x (xs ++ rest) toks (hdd x (by simp)) h
+    obtain ⟨t1, t2, rfl, hl, h2⟩ := ih ts (fun y hy => hdd y (by simp [hy])) hr
+    exact ⟨t :: t1, t2, rfl, by simp [hl], h2⟩
+
+theorem lexAll_vals_inv (tbl : List Act) (vals post : List Str) (toks : List Tok)
+    (hn : ∀ v ∈ vals, NoDash v) (h : lexAll tbl (vals ++ post) = .ok toks) :
+    ∃ tpost, toks = vals.map (fun _ => Tok.A) ++ tpost ∧ lexAll tbl post = .ok tpost := by
+  induction vals generalizing toks with
+  | nil => exact ⟨toks, rfl, h⟩
+  | cons v vs ih =>
+    have hv := hn v (by simp)
+    obtain ⟨t, ts, rfl, hc, hr⟩ := lexAll_cons_inv tbl v (vs ++ post) toks (nodash_ne_dd v hv) h
+    rw [classify_nodash tbl v hv] at hc
+    cases hc
+    obtain ⟨tpost, rfl, h2⟩ := ih ts (fun y hy => hn y (by simp [hy])) hr
+    exact ⟨tpost, rfl, h2⟩
+
+theorem classify_exact (tbl : List Act) (o : Str) (i : Nat) (r : Str) (hr : o = '-' :: r)
+    (hl : (optTable tbl).lookup o = some i) : classify tbl o = .ok (.O (some i) o none) := by
+  unfold classify
+  rw [hr]
+  simp only [ne_eq, not_true_eq_false, ↓reduceIte]
+  rw [← hr, hl]
+
+/-- an occurrence `o v₁ … vₖ` of an exact option string with dash-free value tokens, anywhere on
+    the command line before a literal `--` -/
+structure SegAt (tbl : List Act) (argv pre : List Str) (o : Str) (i : Nat) (vals post : List Str) :
+    Prop where
+  eq : argv = pre ++ o :: (vals ++ post)
+  nodd : ∀ x ∈ pre, x ≠ ['-', '-']
+  lookup : (optTable tbl).lookup o = some i
+  optdash : ∃ r, o = '-' :: r
+  notdd : o ≠ ['-', '-']
+  nodash : ∀ v ∈ vals, NoDash v
+
+theorem zip_argToks (vals : List Str) : vals.zip (vals.map (fun _ => Tok.A)) = argToks vals := by
+  induction vals with
+  | nil => rfl
+  | cons v vs ih => simp only [argToks] at ih; simp [argToks, ih]
+
+/-- how such an occurrence is lexed, whatever surrounds it -/
+theorem SegAt.zip {tbl : List Act} {argv pre : List Str} {o : Str} {i : Nat} {vals post : List Str}
+    (h : SegAt tbl argv pre o i vals post) (toks : List Tok) (hlex : lexAll tbl argv = .ok toks) :
+    ∃ t1 tpost, argv.zip toks =
+        pre.zip t1 ++ (o, Tok.O (some i) o none) :: (argToks vals ++ post.zip tpost) ∧
+      lexAll tbl post = .ok tpost := by
+  rw [h.eq] at hlex
+  obtain ⟨t1, t2, rfl, hl1, h2⟩ := lexAll_append_inv tbl pre _ toks h.nodd hlex
+  obtain ⟨t, ts, rfl, hc, h3⟩ := lexAll_cons_inv tbl o _ t2 h.notdd h2
+  obtain ⟨r, hr⟩ := h.optdash
+  rw [classify_exact tbl o i r hr h.lookup] at hc
+  cases hc
+  obtain ⟨tpost, rfl, h4⟩ := lexAll_vals_inv tbl vals post ts h.nodash h3
+  refine ⟨t1, tpost, ?_, h4⟩
+  rw [h.eq, List.zip_append hl1.symm, List.zip_cons_cons,
+    List.zip_append (by simp), zip_argToks]
+
+/-- the command line continues (if at all) with `--` or an exact option string -/
+def PostStops (tbl : List Act) (post : List Str) : Prop :=
+  ∀ p ps, post = p :: ps → p = ['-', '-'] ∨ ((∃ r, p = '-' :: r) ∧ ∃ j, (optTable tbl).lookup p = some j)
+
+theorem stops_of_postStops (tbl : List Act) (post : List Str) (tpost : List Tok)
+    (hp : PostStops tbl post) (hlex : lexAll tbl post = .ok tpost) : Stops (post.zip tpost) := by
+  intro q qs hq
+  cases post with
+  | nil => simp at hq
+  | cons p ps =>
+    rcases hp p ps rfl with hdd | ⟨⟨r, hr⟩, j, hj⟩
+    · subst hdd
+      simp only [lexAll, ↓reduceIte, Except.ok.injEq] at hlex
+      subst hlex
+      simp only [List.zip_cons_cons, List.cons.injEq] at hq
+      rw [← hq.1]
+      simp
+    · by_cases hdd : p = ['-', '-']
+      · subst hdd
+        simp only [lexAll, ↓reduceIte, Except.ok.injEq] at hlex
+        subst hlex
+        simp only [List.zip_cons_cons, List.cons.injEq] at hq
+        rw [← hq.1]
+        simp
+      · obtain ⟨t, ts, rfl, hc, _⟩ := lexAll_cons_inv tbl p ps tpost hdd hlex
+        rw [classify_exact tbl p j r hr hj] at hc
+        cases hc
+        simp only [List.zip_cons_cons, List.cons.injEq] at hq
+        rw [← hq.1]
+        simp
+
+theorem not_ok_of_lex_error (fenv : FEnv) (tbl : List Act) (cs : List Nat) (argv : List Str)
+    (e : Unit) (h : lexAll tbl argv = .error e) (ns : List (Str × Val)) (ex : List Str) (cs' : List Nat) :
+    runStrict fenv tbl cs argv ≠ .ok ns ex cs' := by
+  unfold runStrict run
+  rw [h]
+  simp
+
+/-- **arity −, stated on the spelling**: `… --tup v₁ … vₖ [--next …]` with `k < m` dash-free
+    values for an action with `nargs = m` is never accepted -/
+theorem c04_arity_short_argv (fenv : FEnv) (tbl : List Act) (cs : List Nat)
+    (argv pre : List Str) (o : Str) (i : Nat) (vals post : List Str)
+    (hseg : SegAt tbl argv pre o i vals post) (hpost : PostStops tbl post)
+    (act : Act) (m : Nat) (hact : tbl[i]? = some act) (hn : act.nargs = .num m)
+    (hlt : vals.length < m) (ns : List (Str × Val)) (ex : List Str) (cs' : List Nat) :
+    runStrict fenv tbl cs argv ≠ .ok ns ex cs' := by
+  cases hlex : lexAll tbl argv with
+  | error e => exact not_ok_of_lex_error fenv tbl cs argv e hlex ns ex cs'
+  | ok toks =>
+    obtain ⟨t1, tpost, hz, hp⟩ := hseg.zip toks hlex
+    exact c04_arity_short_rejected fenv tbl cs argv toks hlex _ _ o i o vals act m hz
+      (stops_of_postStops tbl post tpost hpost hp) hact hn hlt ns ex cs'
+
+/-- **arity +, stated on the spelling** -/
+theorem c04_arity_long_argv (fenv : FEnv) (tbl : List Act) (cs : List Nat)
+    (argv pre : List Str) (o : Str) (i : Nat) (vals post : List Str)
+    (hseg : SegAt tbl argv pre o i vals post)
+    (act : Act) (m : Nat) (hact : tbl[i]? = some act) (hn : act.nargs = .num m)
+    (hgt : m < vals.length) (ns : List (Str × Val)) (ex : List Str) (cs' : List Nat) :
+    runStrict fenv tbl cs argv ≠ .ok ns ex cs' := by
+  cases hlex : lexAll tbl argv with
+  | error e => exact not_ok_of_lex_error fenv tbl cs argv e hlex ns ex cs'
+  | ok toks =>
+    obtain ⟨t1, tpost, hz, _⟩ := hseg.zip toks hlex
+    exact c04_arity_long_rejected fenv tbl cs argv toks hlex _ _ o i o vals act m hz hact hn hgt
+      ns ex cs'
+
+/-- **ill-typed token / out-of-set value, stated on the spelling** -/
+theorem c04_bad_value_argv (fenv : FEnv) (tbl : List Act) (cs : List Nat)
+    (argv pre : List Str) (o : Str) (i : Nat) (vals post : List Str)
+    (hseg : SegAt tbl argv pre o i vals post)
+    (act : Act) (hact : tbl[i]? = some act) (j : Nat) (t : Str) (ht : vals[j]? = some t)
+    (hin : InTake act.nargs j) (hbad : NeverConverts fenv act i t)
+    (ns : List (Str × Val)) (ex : List Str) (cs' : List Nat) :
+    runStrict fenv tbl cs argv ≠ .ok ns ex cs' := by
+  cases hlex : lexAll tbl argv with
+  | error e => exact not_ok_of_lex_error fenv tbl cs argv e hlex ns ex cs'
+  | ok toks =>
+    obtain ⟨t1, tpost, hz, _⟩ := hseg.zip toks hlex
+    exact c04_bad_value_rejected fenv tbl cs argv toks hlex _ _ o i o vals act hz hact j t ht hin
+      hbad ns ex cs'
+
+/-- **heterogeneous tuple, stated on the spelling** -/
+theorem c04_hetero_bad_argv (fenv : FEnv) (tbl : List Act) (cs : List Nat) (hal : Aligned tbl cs)
+    (argv pre : List Str) (o : Str) (i : Nat) (vals post : List Str)
+    (hseg : SegAt tbl argv pre o i vals post)
+    (act : Act) (bs : List BConv) (hact : tbl[i]? = some act) (hconv : act.conv = .tupleCounter bs)
+    (hn : act.nargs = .num bs.length) (j : Nat) (t : Str) (b : BConv)
+    (ht : vals[j]? = some t) (hb : bs[j]? = some b) (hbad : ∀ v, b.apply fenv t ≠ .ok v)
+    (ns : List (Str × Val)) (ex : List Str) (cs' : List Nat) :
+    runStrict fenv tbl cs argv ≠ .ok ns ex cs' := by
+  cases hlex : lexAll tbl argv with
+  | error e => exact not_ok_of_lex_error fenv tbl cs argv e hlex ns ex cs'
+  | ok toks =>
+    obtain ⟨t1, tpost, hz, _⟩ := hseg.zip toks hlex
+    exact c04_hetero_bad_rejected fenv tbl cs argv hal toks hlex _ _ o i o vals act bs hz hact hconv
+      hn j t b ht hb hbad ns ex cs'
+
+/-- **value on a negative flag, `--noflag x`, stated on the spelling** -/
+theorem c04_negflag_space_argv (fenv : FEnv) (tbl : List Act) (hw : NoRaiseTbl tbl) (cs : List Nat)
+    (argv pre : List Str) (o : Str) (i : Nat) (x : Str) (vals post : List Str)
+    (hseg : SegAt tbl argv pre o i (x :: vals) post)
+    (act : Act) (negs : List Str) (hact : tbl[i]? = some act) (hk : act.kind = .boolOpt negs)
+    (ho : negs.contains o = true) (ns : List (Str × Val)) (ex : List Str) (cs' : List Nat) :
+    runStrict fenv tbl cs argv ≠ .ok ns ex cs' := by
+  cases hlex : lexAll tbl argv with
+  | error e => exact not_ok_of_lex_error fenv tbl cs argv e hlex ns ex cs'
+  | ok toks =>
+    obtain ⟨t1, tpost, hz, _⟩ := hseg.zip toks hlex
+    exact c04_negflag_space_rejected fenv tbl hw cs argv toks hlex (pre.zip t1)
+      (argToks vals ++ post.zip tpost) o i o x act negs (by rw [hz]; simp [argToks]) hact hk ho ns ex cs'
+
+/-! #### `--opt=value` -/
+
+theorem splitEq_append (o x : Str) (h : ∀ c ∈ o, c ≠ '=') : splitEq (o ++ '=' :: x) = some (o, x) := by
+  induction o with
+  | nil => simp [splitEq]
+  | cons c cs ih =>
+    have hc : c ≠ '=' := h c (by simp)
+    simp only [List.cons_append, splitEq, hc, ↓reduceIte, ih (fun d hd => h d (by simp [hd]))]
+
+/-- `opt=value` with `opt` an exact option string (and the whole token not itself one) is lexed as
+    that option with the explicit argument -/
+theorem classify_eq (tbl : List Act) (o x : Str) (i : Nat) (r : Str) (hr : o = '-' :: r)
+    (hne : ∀ c ∈ o, c ≠ '=') (hl : (optTable tbl).lookup o = some i)
+    (hnl : (optTable tbl).lookup (o ++ '=' :: x) = none) :
+    classify tbl (o ++ '=' :: x) = .ok (.O (some i) o (some x)) := by
+  unfold classify
+  have hcons : o ++ '=' :: x = '-' :: (r ++ '=' :: x) := by rw [hr]; rfl
+  have hlen : (o ++ '=' :: x).length ≠ 1 := by
+    rw [hr]; simp
+  rw [hcons]
+  simp only [ne_eq, not_true_eq_false, ↓reduceIte]
+  rw [← hcons, hnl]
+  simp only [hlen, ↓reduceIte, splitEq_append o x hne, hl]
+
+theorem lexAll_mem' (tbl : List Act) (pre post : List Str) (a : Str) (t : Tok)
+    (hdd : ∀ x ∈ pre, x ≠ ['-', '-']) (ha : a ≠ ['-', '-']) (hc : classify tbl a = .ok t)
+    (toks : List Tok) (hlex : lexAll tbl (pre ++ a :: post) = .ok toks) :
+    (a, t) ∈ (pre ++ a :: post).zip toks := by
+  obtain ⟨t1, t2, rfl, hl1, h2⟩ := lexAll_append_inv tbl pre _ toks hdd hlex
+  obtain ⟨t', ts, rfl, hc', _⟩ := lexAll_cons_inv tbl a post t2 ha h2
+  rw [hc] at hc'
+  cases hc'
+  rw [List.zip_append hl1.symm]
+  simp
+
+/-- **value on a negative flag, `--noflag=x`, stated on the spelling** -/
+theorem c04_negflag_eq_argv (fenv : FEnv) (tbl : List Act) (hw : NoRaiseTbl tbl) (cs : List Nat)
+    (pre post : List Str) (o x : Str) (i : Nat) (r : Str) (hdd : ∀ y ∈ pre, y ≠ ['-', '-'])
+    (hr : o = '-' :: r) (hne : ∀ c ∈ o, c ≠ '=') (hl : (optTable tbl).lookup o = some i)
+    (hnl : (optTable tbl).lookup (o ++ '=' :: x) = none)
+    (act : Act) (negs : List Str) (hact : tbl[i]? = some act) (hk : act.kind = .boolOpt negs)
+    (ho : negs.contains o = true) (ns : List (Str × Val)) (ex : List Str) (cs' : List Nat) :
+    runStrict fenv tbl cs (pre ++ (o ++ '=' :: x) :: post) ≠ .ok ns ex cs' := by
+  cases hlex : lexAll tbl (pre ++ (o ++ '=' :: x) :: post) with
+  | error e => exact not_ok_of_lex_error fenv tbl cs _ e hlex ns ex cs'
+  | ok toks =>
+    have hndd : o ++ '=' :: x ≠ ['-', '-'] := by
+      rw [hr]
+      intro hh
+      have h1 : (r ++ '=' :: x) = ['-'] := by simpa using hh
+      have : '=' ∈ (['-'] : List Char) := by rw [← h1]; simp
+      simp at this
+    have hm := lexAll_mem' tbl pre post _ _ hdd hndd (classify_eq tbl o x i r hr hne hl hnl) toks hlex
+    exact c04_negflag_eq_rejected fenv tbl hw cs _ toks hlex _ i o x act negs hm hact hk ho ns ex cs'
+
+/-! #### unknown long option (the lexer's verdict derived — re-proved here because `Props/C10`
+    imports this file) -/
+
+theorem splitOnChar_head_cons' (sep c : Char) (cs : Str) (h : c ≠ sep) :
+    ∃ p ps, splitOnChar sep (c :: cs) = (c :: p) :: ps := by
+  simp only [splitOnChar, h, ↓reduceIte]
+  cases hs : splitOnChar sep cs with
+  | nil => exact ⟨[], [], rfl⟩
+  | cons p ps => exact ⟨p, ps, rfl⟩
+
+theorem looksNegNumber_dd' (r : Str) : looksNegNumber ('-' :: '-' :: r) = false := by
+  obtain ⟨p, ps, hp⟩ := splitOnChar_head_cons' '.' '-' r (by decide)
+  simp only [looksNegNumber, hp]
+  have h1 : allDigits ('-' :: r) = false := by
+    simp [allDigits, isDigit]
+  rw [h1]
+  cases ps with
+  | nil => simp
+  | cons b rest =>
+    cases rest with
+    | nil => simp [allDigits, isDigit]
+    | cons _ _ => simp
+
+theorem startsWith_self' (s : Str) : startsWith s s = true := by
+  induction s with
+  | nil => rfl
+  | cons c cs ih => simp [startsWith, ih]
+
+theorem lookup_none_of_forall' {β : Type} (l : List (Str × β)) (k : Str) (h : ∀ p ∈ l, p.1 ≠ k) :
+    l.lookup k = none := by
+  induction l with
+  | nil => rfl
+  | cons p ps ih =>
+    obtain ⟨a, b⟩ := p
+    have hne : a ≠ k := h (a, b) (by simp)
+    have : (k == a) = false := by simpa using fun hh => hne hh.symm
+    simp only [List.lookup, this]
+    exact ih (fun q hq => h q (by simp [hq]))
+
+/-- (`classify_unknown'`) a long spelling that is no option string, no abbreviation of one, carries
+    no `=` and no blank is lexed as an option no action owns -/
+theorem classify_unknown' (tbl : List Act) (r : Str)
+    (heq : splitEq ('-' :: '-' :: r) = none)
+    (hsp : (('-' :: '-' :: r).contains ' ') = false)
+    (hpre : ∀ a ∈ tbl, ∀ o ∈ a.opts, startsWith o ('-' :: '-' :: r) = false) :
+    classify tbl ('-' :: '-' :: r) = .ok (.O none ('-' :: '-' :: r) none) := by
+  have hpre' : ∀ p ∈ optTable tbl, startsWith p.1 ('-' :: '-' :: r) = false := by
+    intro p hp
+    obtain ⟨act, hact, ho⟩ := mem_optTable_idx tbl p.1 p.2 hp
+    exact hpre act (List.mem_of_getElem? hact) p.1 ho
+  have hl : (optTable tbl).lookup ('-' :: '-' :: r) = none := by
+    apply lookup_none_of_forall'
+    intro p hp hh
+    have := hpre' p hp
+    rw [hh, startsWith_self'] at this
+    cases this
+  have hot : optionTuples (optTable tbl) ('-' :: '-' :: r) = [] := by
+    simp only [optionTuples, heq]
+    rw [List.map_eq_nil_iff, List.filter_eq_nil_iff]
+    intro p hp
+    simp [hpre' p hp]
+  unfold classify
+  simp only [hl, heq, hot, looksNegNumber_dd', hsp]
+  simp
+
+/-- **C04 (unknown option), stated on the spelling.** A command line that carries, before any
+    literal `--`, a long spelling `--r` (no `=`, no blank) that is not a prefix of — in particular
+    not equal to — any option string of any action is never accepted: not with any other tokens
+    around it, not with any closure state. (The lexer's verdict `O none` is derived here, not
+    assumed as in `c04_unknown_rejected`.) -/
+theorem c04_unknown_long_rejected (fenv : FEnv) (tbl : List Act) (cs : List Nat)
+    (pre post : List Str) (r : Str) (hr : r ≠ [])
+    (hdd : ∀ x ∈ pre, x ≠ ['-', '-'])
+    (heq : splitEq ('-' :: '-' :: r) = none)
+    (hsp : (('-' :: '-' :: r).contains ' ') = false)
+    (hpre : ∀ a ∈ tbl, ∀ o ∈ a.opts, startsWith o ('-' :: '-' :: r) = false)
+    (ns : List (Str × Val)) (ex : List Str) (cs' : List Nat) :
+    runStrict fenv tbl cs (pre ++ ('-' :: '-' :: r) :: post) ≠ .ok ns ex cs' := by
+  have hc := classify_unknown' tbl r heq hsp hpre
+  have hne : ('-' :: '-' :: r) ≠ ['-', '-'] := by
+    intro h; apply hr; simpa using h
+  cases hlex : lexAll tbl (pre ++ ('-' :: '-' :: r) :: post) with
+  | error e => exact not_ok_of_lex_error fenv tbl cs _ e hlex ns ex cs'
+  | ok toks =>
+    have hm := lexAll_mem' tbl pre post _ _ hdd hne hc toks hlex
+    exact c04_unknown_rejected fenv tbl cs _ toks hlex ⟨_, hm, _, _, rfl⟩ ns ex cs'
+
+/-! ### 10. well-typed against the ANNOTATION, not against the action's own `type=` -/
+
+/-- a scalar value conforms to a base type (`Any` accepts everything) -/
+def BConforms : BTy → Scalar → Prop
+  | .int, .int _ => True
+  | .float, .float _ => True
+  | .str, .str _ => True
+  | .bool, .bool _ => True
+  | .path, .path _ => True
+  | .any, _ => True
+  | .enum c ms, .enum c' m => c' = c ∧ m ∈ ms
+  | _, _ => False
+
+def IConforms : ITy → Scalar → Prop
+  | .base b, s => BConforms b s
+  | .union alts, s => ∃ b ∈ alts, BConforms b s
+
+/-- position-wise conformance with equal lengths (`Tuple[t1, …, tn]`) -/
+def TupleConforms : List ITy → List Scalar → Prop
+  | [], [] => True
+  | t :: ts, s :: ss => IConforms t s ∧ TupleConforms ts ss
+  | _, _ => False
+
+/-- a value conforms to a non-optional annotation: item-wise for `List[T]` / `Tuple[T, ...]`,
+    POSITION-wise and with the exact length for `Tuple[t1, …, tn]`, one of the values for `Literal` -/
+def NConforms : NTy → Val → Prop
+  | .sc t, .sc s => IConforms t s
+  | .literal vals, .sc s => s ∈ vals
+  | .list item, .list l => ∀ s ∈ l, IConforms item s
+  | .tuple items, .tuple l => TupleConforms items l
+  | .vtuple item, .tuple l => ∀ s ∈ l, IConforms item s
+  | _, _ => False
+
+/-- **conformance of a field value to the field's annotation** -/
+def Conforms (t : FTy) (v : Val) : Prop :=
+  (t.optional = true ∧ v = .sc .none) ∨ NConforms t.inner v
+
+theorem bconv_conforms (fenv : FEnv) (b : BTy) (s : Str) (v : Scalar)
+    (h : (bconvOf b).apply fenv s = .ok v) : BConforms b v := by
+  cases b with
+  | int => obtain ⟨i, rfl⟩ := conv_int_range fenv s v h; simp [BConforms]
+  | float => obtain ⟨r, rfl⟩ := conv_float_range fenv s v h; simp [BConforms]
+  | str => simp only [bconvOf, BConv.apply, ConvOut.ok.injEq] at h; subst h; simp [BConforms]
+  | bool => obtain ⟨b, rfl⟩ := conv_bool_range fenv s v h; simp [BConforms]
+  | path =>
+    simp only [bconvOf, BConv.apply, parsePath] at h
+    split at h
+    · cases h; simp [BConforms]
+    · split at h
+      · cases h; simp [BConforms]
+      · cases h
+  | any => cases v <;> simp [BConforms]
+  | «enum» cls ms =>
+    obtain ⟨m, rfl, hm⟩ := conv_enum_range fenv cls ms s v h
+    simp [BConforms, hm]
+
+theorem union_conforms (fenv : FEnv) (alts : List BTy) (s : Str) (v : Scalar)
+    (h : unionApply fenv (alts.map bconvOf) s = .ok v) : ∃ b ∈ alts, BConforms b v := by
+  induction alts with
+  | nil => simp [unionApply] at h
+  | cons b bs ih =>
+    simp only [List.map_cons, unionApply] at h
+    split at h
+    · rename_i w hw
+      simp only [ConvOut.ok.injEq] at h
+      subst h
+      exact ⟨b, by simp, bconv_conforms fenv b s _ hw⟩
+    · cases h
+    · obtain ⟨b', hb', hc⟩ := ih h
+      exact ⟨b', by simp [hb'], hc⟩
+
+theorem convOfItem_conforms (fenv : FEnv) (t : ITy) (k : Nat) (s : Str) (v : Scalar)
+    (h : (convOfItem t).apply fenv k s = .ok v) : IConforms t v := by
+  cases t with
+  | base b => exact bconv_conforms fenv b s v h
+  | union alts => exact union_conforms fenv alts s v h
+
+theorem containerConv_conforms (fenv : FEnv) (item : ITy) (c : Conv) (hc : containerConv item = some c)
+    (k : Nat) (s : Str) (v : Scalar) (h : c.apply fenv k s = .ok v) : IConforms item v := by
+  cases item with
+  | union alts =>
+    simp only [containerConv, Option.some.injEq] at hc
+    subst hc
+    exact union_conforms fenv alts s v h
+  | base b =>
+    cases b with
+    | any =>
+      simp only [containerConv, Option.some.injEq] at hc
+      subst hc
+      simp only [IConforms]
+      cases v <;> simp [BConforms]
+    | int => simp only [containerConv, Option.some.injEq] at hc; subst hc; exact bconv_conforms fenv _ s v h
+    | float => simp only [containerConv, Option.some.injEq] at hc; subst hc; exact bconv_conforms fenv _ s v h
+    | str => simp only [containerConv, Option.some.injEq] at hc; subst hc; exact bconv_conforms fenv _ s v h
+    | bool => simp only [containerConv, Option.some.injEq] at hc; subst hc; exact bconv_conforms fenv _ s v h
+    | path => simp only [containerConv, Option.some.injEq] at hc; subst hc; exact bconv_conforms fenv _ s v h
+    | «enum» cls ms =>
+      simp only [containerConv, Option.some.injEq] at hc; subst hc; exact bconv_conforms fenv _ s v h
+
+theorem tupleConforms_of_get :
+    ∀ (l1 : List ITy) (l2 : List Scalar), l1.length = l2.length →
+      (∀ (j : Nat) a b, l1[j]? = some a → l2[j]? = some b → IConforms a b) → TupleConforms l1 l2
+  | [], [], _, _ => trivial
+  | [], _ :: _, h, _ => by simp at h
+  | _ :: _, [], h, _ => by simp at h
+  | a :: as, b :: bs, h, hr =>
+    ⟨hr 0 a b rfl rfl,
+      tupleConforms_of_get as bs (by simpa using h) (fun j x y hx hy => hr (j + 1) x y hx hy)⟩
+
+theorem filterMap_full {α β : Type} (f : α → Option β) :
+    ∀ (l : List α), (l.filterMap f).length = l.length →
+      ∀ (j : Nat) a, l[j]? = some a → ∃ b, f a = some b ∧ (l.filterMap f)[j]? = some b
+  | [], _, j, a, h => by simp at h
+  | x :: xs, hl, j, a, h => by
+    have hle := List.length_filterMap_le f xs
+    cases hx : f x with
+    | none =>
+      rw [List.filterMap_cons_none hx] at hl
+      simp only [List.length_cons] at hl
+      omega
+    | some y =>
+      rw [List.filterMap_cons_some hx] at hl ⊢
+      cases j with
+      | zero =>
+        simp only [List.getElem?_cons_zero, Option.some.injEq] at h
+        subst h
+        exact ⟨y, hx, rfl⟩
+      | succ j' =>
+        simp only [List.getElem?_cons_succ] at h ⊢
+        exact filterMap_full f xs (by simpa using hl) j' a h
+
+theorem allEq_get (t : ITy) (rest : List ITy) (h : allEq (t :: rest) = true) (j : Nat) (it : ITy)
+    (hj : (t :: rest)[j]? = some it) : it = t := by
+  cases j with
+  | zero => simp only [List.getElem?_cons_zero, Option.some.injEq] at hj; exact hj.symm
+  | succ j' =>
+    simp only [List.getElem?_cons_succ] at hj
+    simp only [allEq, List.all_eq_true, decide_eq_true_eq] at h
+    exact h it (List.mem_of_getElem? hj)
+
+/-- items converted by the `type=` of a fixed tuple, at aligned positions, conform position-wise -/
+theorem tupleConv_conforms (fenv : FEnv) (items : List ITy) (c : Conv) (hc : tupleConv items = some c)
+    (l : List Scalar) (hlen : l.length = items.length) (k0 : Nat)
+    (hk0 : ∀ bs, c = .tupleCounter bs → k0 % bs.length = 0)
+    (hpos : ∀ j s, l[j]? = some s → ∃ t, c.apply fenv (k0 + j * (match c with | .tupleCounter _ => 1 | _ => 0)) t = .ok s) :
+    TupleConforms items l := by
+  apply tupleConforms_of_get items l hlen.symm
+  intro j it s hit hs
+  obtain ⟨t, ht⟩ := hpos j s hs
+  unfold tupleConv at hc
+  cases items with
+  | nil => simp at hit
+  | cons t0 rest =>
+    simp only at hc
+    split at hc
+    · rename_i hall
+      simp only [Option.some.injEq] at hc
+      subst hc
+      have := allEq_get t0 rest hall j it hit
+      subst this
+      exact convOfItem_conforms fenv it _ t s ht
+    · split at hc
+      · rename_i hfull
+        simp only [Option.some.injEq] at hc
+        subst hc
+        simp only [Nat.mul_one] at ht
+        obtain ⟨b, hb, hget⟩ := filterMap_full _ (t0 :: rest) hfull j it hit
+        have hjn : j < (t0 :: rest).length := (List.getElem?_eq_some_iff.mp hit).1
+        have hidx0 : ∀ n, n = (t0 :: rest).length → k0 % n = 0 → (k0 + j) % n = j := by
+          intro n hn h0
+          rw [hn] at h0 ⊢
+          rw [Nat.add_mod, h0, Nat.zero_add, Nat.mod_mod, Nat.mod_eq_of_lt hjn]
+        have hidx := hidx0 _ hfull (hk0 _ rfl)
+        simp only [Conv.apply, hidx, hget] at ht
+        cases it with
+        | union alts => simp at hb
+        | base bt =>
+          simp only [Option.some.injEq] at hb
+          subst hb
+          exact bconv_conforms fenv bt t s ht
+      · cases hc
+
+/-! #### the position-aware soundness invariant of the engine -/
+
+/-- the items of a stored LIST value were converted at consecutive closure positions starting at a
+    `k0` that is a multiple of the arity for a fixed heterogeneous tuple -/
+def PosOk (fenv : FEnv) (act : Act) (v : Val) : Prop :=
+  ∀ l, v = .list l → ∃ k0,
+    (∀ bs, act.conv = .tupleCounter bs → act.nargs = .num bs.length → k0 % bs.length = 0) ∧
+    ∀ j s, l[j]? = some s → ∃ t, act.conv.apply fenv (k0 + j * tc act) t = .ok s
+
+/-- `NsOk` with positions -/
+def NsOkP (fenv : FEnv) (tbl : List Act) (ns : List (Str × Val)) : Prop :=
+  ∀ p ∈ ns, ∃ a ∈ tbl, a.dest = p.1 ∧
+    (a.default = some p.2 ∨ (ValOk fenv a p.2 ∧ PosOk fenv a p.2) ∨
+      ∃ s k v, a.default = some (.sc (.str s)) ∧ a.conv.apply fenv k s = .ok v ∧ p.2 = .sc v)
+
+theorem NsOkP.toNsOk {fenv : FEnv} {tbl : List Act} {ns : List (Str × Val)} (h : NsOkP fenv tbl ns) :
+    NsOk fenv tbl ns := by
+  intro p hp
+  obtain ⟨a, ha, hd, hc⟩ := h p hp
+  refine ⟨a, ha, hd, ?_⟩
+  rcases hc with h1 | ⟨h1, _⟩ | h1
+  · exact Or.inl h1
+  · exact Or.inr (Or.inl h1)
+  · exact Or.inr (Or.inr h1)
+
+theorem getValue_at (fenv : FEnv) (act : Act) (i : Nat) (cs cs' : List Nat) (t : Str) (s : Scalar)
+    (h : getValue fenv act i cs t = .ok (s, cs')) : act.conv.apply fenv (cs.getD i 0) t = .ok s := by
+  unfold getValue at h
+  simp only at h
+  split at h
+  · cases h
+  · cases h
+  · cases h
+  · rename_i v hv
+    split at h
+    · split at h
+      · split at h
+        · simp only [Except.ok.injEq, Prod.mk.injEq] at h; rw [← h.1]; exact hv
+        · cases h
+      · cases h
+    · simp only [Except.ok.injEq, Prod.mk.injEq] at h; rw [← h.1]; exact hv
+
+theorem getValuesList_pos (fenv : FEnv) (act : Act) (i : Nat) :
+    ∀ (toks : List Str) (cs cs' : List Nat) (vs : List Scalar), i < cs.length →
+      getValuesList fenv act i cs toks = .ok (vs, cs') →
+      ∀ j s, vs[j]? = some s → ∃ t, act.conv.apply fenv (cs.getD i 0 + j * tc act) t = .ok s := by
+  intro toks
+  induction toks with
+  | nil =>
+    intro cs cs' vs _ h j s hs
+    simp only [getValuesList, Except.ok.injEq, Prod.mk.injEq] at h
+    rw [← h.1] at hs
+    simp at hs
+  | cons t ts ih =>
+    intro cs cs' vs hi h j s hs
+    simp only [getValuesList] at h
+    cases h1 : getValue fenv act i cs t with
+    | error e => rw [h1] at h; cases h
+    | ok p =>
+      obtain ⟨v, c1⟩ := p
+      rw [h1] at h
+      simp only at h
+      cases h2 : getValuesList fenv act i c1 ts with
+      | error e => rw [h2] at h; cases h
+      | ok q =>
+        obtain ⟨vs2, c2⟩ := q
+        rw [h2] at h
+        simp only [Except.ok.injEq, Prod.mk.injEq] at h
+        obtain ⟨rfl, _⟩ := h
+        cases j with
+        | zero =>
+          simp only [List.getElem?_cons_zero, Option.some.injEq] at hs
+          subst hs
+          exact ⟨t, by simpa using getValue_at fenv act i cs c1 t v h1⟩
+        | succ j' =>
+          simp only [List.getElem?_cons_succ] at hs
+          obtain ⟨hl1, hi1, _⟩ := getValue_counters fenv act i cs c1 t v hi h1
+          obtain ⟨t', ht'⟩ := ih c1 c2 vs2 (by rw [hl1]; exact hi) h2 j' s hs
+          refine ⟨t', ?_⟩
+          rw [hi1] at ht'
+          have : cs.getD i 0 + tc act + j' * tc act = cs.getD i 0 + (j' + 1) * tc act := by
+            rw [Nat.succ_mul]; omega
+          rw [this] at ht'
+          exact ht'
+
+theorem segVal_list (n : NArgs) (vs l : List Scalar) (h : segVal n vs = .list l) : l = vs := by
+  unfold segVal at h
+  split at h
+  · cases h
+  · cases h
+  · cases h
+  · simp only [Val.list.injEq] at h; exact h.symm
+
+theorem getValues_pos (fenv : FEnv) (act : Act) (i : Nat) (cs cs' : List Nat) (toks : List Str)
+    (v : Val) (hi : i < cs.length) (h : getValues fenv act i cs toks = .ok (v, cs')) :
+    ∀ l, v = .list l → ∀ j s, l[j]? = some s →
+      ∃ t, act.conv.apply fenv (cs.getD i 0 + j * tc act) t = .ok s := by
+  rw [getValues_ok_iff] at h
+  cases h1 : getValuesList fenv act i cs toks with
+  | error e => rw [h1] at h; cases h
+  | ok p =>
+    obtain ⟨vs, c1⟩ := p
+    rw [h1] at h
+    simp only [Except.ok.injEq, Prod.mk.injEq] at h
+    intro l hl j s hs
+    rw [← h.1] at hl
+    have := segVal_list _ _ _ hl
+    subst this
+    exact getValuesList_pos fenv act i toks cs c1 l hi h1 j s hs
+
+theorem nsOkP_setKey (fenv : FEnv) (tbl : List Act) (ns : List (Str × Val)) (act : Act)
+    (hmem : act ∈ tbl) (v : Val) (hv : ValOk fenv act v) (hp : PosOk fenv act v)
+    (h : NsOkP fenv tbl ns) : NsOkP fenv tbl (setKey ns act.dest v) := by
+  intro p hp'
+  rcases mem_setKey ns act.dest v p hp' with rfl | hp'
+  · exact ⟨act, hmem, rfl, Or.inr (Or.inl ⟨hv, hp⟩)⟩
+  · exact h p hp'
+
+theorem takeAction_nsOkP (fenv : FEnv) (tbl : List Act) (st st' : St) (i : Nat) (o : Str)
+    (args : List Str) (h : takeAction fenv tbl st i o args = .ok st') (hns : NsOkP fenv tbl st.ns)
+    (hal : Aligned tbl st.counters)
+    (hargs : ∀ act, tbl[i]? = some act → arityOk act.nargs args.length) :
+    NsOkP fenv tbl st'.ns := by
+  unfold takeAction at h
+  cases hact : tbl[i]? with
+  | none => rw [hact] at h; cases h
+  | some act =>
+    have har := hargs act hact
+    have hmem : act ∈ tbl := List.mem_of_getElem? hact
+    have hi : i < st.counters.length := by
+      rw [hal.1]; exact (List.getElem?_eq_some_iff.mp hact).1
+    rw [hact] at h
+    simp only at h
+    cases hk : act.kind with
+    | help => rw [hk] at h; cases h
+    | store =>
+      rw [hk] at h
+      simp only at h
+      cases h1 : getValues fenv act i st.counters args with
+      | error e1 => rw [h1] at h; cases h
+      | ok p =>
+        obtain ⟨v, cs⟩ := p
+        rw [h1] at h
+        simp only [Except.ok.injEq] at h
+        subst h
+        refine nsOkP_setKey fenv tbl st.ns act hmem v ?_ ?_ hns
+        · simp only [ValOk, hk]
+          exact getValues_ok fenv act i st.counters cs args v har h1
+        · intro l hl
+          exact ⟨st.counters.getD i 0, fun bs hc hn => hal.2 i act bs hact hc hn,
+            getValues_pos fenv act i st.counters cs args v hi h1 l hl⟩
+    | boolOpt negs =>
+      rw [hk] at h
+      simp only at h
+      cases h1 : getValues fenv act i st.counters args with
+      | error e1 => rw [h1] at h; cases h
+      | ok p =>
+        obtain ⟨v, cs⟩ := p
+        rw [h1] at h
+        dsimp only at h
+        split at h
+        · simp only [Except.ok.injEq] at h; subst h
+          exact nsOkP_setKey fenv tbl st.ns act hmem _ (by simp only [ValOk, hk]; exact ⟨_, rfl⟩)
+            (by intro l hl; cases hl) hns
+        · split at h
+          · cases h
+          · simp only [Except.ok.injEq] at h; subst h
+            exact nsOkP_setKey fenv tbl st.ns act hmem _ (by simp only [ValOk, hk]; exact ⟨_, rfl⟩)
+              (by intro l hl; cases hl) hns
+        · cases h
+
+theorem arity_num {tbl : List Act} {i : Nat} {ac : Act} {args : List Str} (hact : tbl[i]? = some ac)
+    (har : arityOk ac.nargs args.length) :
+    ∀ act m, tbl[i]? = some act → act.nargs = .num m → args.length = m := by
+  intro act m ha hn
+  rw [hact] at ha; cases ha
+  rw [hn] at har
+  exact har
+
+theorem consume_nsOkP (fenv : FEnv) (tbl : List Act) (fuel : Nat) (st st' : St)
+    (l : List (Str × Tok)) (h : consume fenv tbl fuel st l = .ok st')
+    (hns : NsOkP fenv tbl st.ns) (hal : Aligned tbl st.counters) :
+    NsOkP fenv tbl st'.ns ∧ Aligned tbl st'.counters :=
+  consume_inv fenv tbl l (fun s => NsOkP fenv tbl s.ns ∧ Aligned tbl s.counters)
+    (by
+      intro s p rest s2 r2 _ hs hst
+      rcases hst.cases' with h1 | ⟨i, o, ex, ac, args, _, hact, _, har, htk⟩
+      · subst h1; exact hs
+      · exact ⟨takeAction_nsOkP fenv tbl s s2 i o args htk hs.1 hs.2
+            (by intro a2 h2; rw [hact] at h2; cases h2; exact har),
+          takeAction_aligned fenv tbl s s2 i o args hs.2 (arity_num hact har) htk⟩)
+    fuel st st' l (fun _ hp => hp) h ⟨hns, hal⟩
+
+theorem initNs_nsOkP (fenv : FEnv) (tbl : List Act) : NsOkP fenv tbl (initNs tbl) := by
+  unfold initNs
+  have : ∀ (l : List Act) (ns : List (Str × Val)), (∀ a ∈ l, a ∈ tbl) → NsOkP fenv tbl ns →
+      NsOkP fenv tbl (l.foldl (fun ns a => match a.default with
+        | some d => if ns.any (fun p => p.1 = a.dest) then ns else ns ++ [(a.dest, d)]
+        | none => ns) ns) := by
+    intro l
+    induction l with
+    | nil => intro ns _ h; exact h
+    | cons a as ih =>
+      intro ns hsub h
+      simp only [List.foldl_cons]
+      apply ih _ (fun x hx => hsub x (by simp [hx]))
+      cases hd : a.default with
+      | none => exact h
+      | some d =>
+        simp only
+        split
+        · exact h
+        · intro p hp
+          simp only [List.mem_append, List.mem_singleton] at hp
+          rcases hp with hp | rfl
+          · exact h p hp
+          · exact ⟨a, hsub a (by simp), rfl, Or.inl hd⟩
+  exact this tbl [] (fun _ h => h) (by intro p hp; cases hp)
+
+theorem finish_nsOkP (fenv : FEnv) (tbl : List Act) (st st' : St) (l : List (Act × Nat))
+    (hl : ∀ p ∈ l, p.1 ∈ tbl) (h : finish fenv tbl st l = .ok st') (hns : NsOkP fenv tbl st.ns) :
+    NsOkP fenv tbl st'.ns := by
+  induction l generalizing st with
+  | nil => simp only [finish, Except.ok.injEq] at h; subst h; exact hns
+  | cons p ps ih =>
+    obtain ⟨a, i⟩ := p
+    have hl' : ∀ q ∈ ps, q.1 ∈ tbl := fun q hq => hl q (by simp [hq])
+    have ha : a ∈ tbl := hl (a, i) (by simp)
+    rw [finish] at h
+    split at h
+    · exact ih _ hl' h hns
+    · split at h
+      · cases h
+      · split at h
+        · rename_i s hdef
+          split at h
+          · split at h
+            · rename_i v hv
+              refine ih _ hl' h ?_
+              intro p hp
+              rcases mem_setKey st.ns a.dest (.sc v) p hp with rfl | hp
+              · exact ⟨a, ha, rfl, Or.inr (Or.inr ⟨s, _, v, hdef, hv, rfl⟩)⟩
+              · exact hns p hp
+            · cases h
+            · cases h
+            · cases h
+          · exact ih _ hl' h hns
+        · exact ih _ hl' h hns
+
+/-- **C04 (well-typed results, with positions).** On a parser whose `parse_tuple` counters are
+    aligned (a new parser; any parser after accepted parses): every stored list was converted item
+    by item at consecutive closure positions starting at a multiple of the tuple's arity — so item
+    `j` of a `Tuple[t0, …]` value was produced by the parser of `tj`, not of some other position. -/
+theorem c04_sound_positions (fenv : FEnv) (tbl : List Act) (cs : List Nat) (argv : List Str)
+    (ns : List (Str × Val)) (ex : List Str) (cs' : List Nat) (hal : Aligned tbl cs)
+    (h : run fenv tbl cs argv = .ok ns ex cs') : NsOkP fenv tbl ns := by
+  unfold run at h
+  cases hlex : lexAll tbl argv with
+  | error e => rw [hlex] at h; cases h
+  | ok toks =>
+    rw [hlex] at h
+    dsimp only at h
+    cases hc : consume fenv tbl (argv.length + 1)
+        { ns := initNs tbl, extras := [], seen := [], counters := cs } (argv.zip toks) with
+    | error e =>
+      rw [hc] at h; dsimp only at h
+      have := consume_err _ _ _ _ _ _ hc
+      rw [h] at this; exact absurd this (by simp [GoodErr])
+    | ok st =>
+      rw [hc] at h; dsimp only at h
+      have h1 := (consume_nsOkP fenv tbl _ _ st _ hc (initNs_nsOkP fenv tbl) hal).1
+      cases hf : finish fenv tbl st tbl.zipIdx with
+      | error e =>
+        rw [hf] at h; dsimp only at h
+        have := finish_err _ _ _ _ _ hf
+        rw [h] at this; exact absurd this (by simp [GoodErr])
+      | ok st2 =>
+        rw [hf] at h; dsimp only at h
+        simp only [EOut.ok.injEq] at h
+        rw [← h.1]
+        exact finish_nsOkP fenv tbl st st2 tbl.zipIdx
+          (fun p hp => List.fst_mem_of_mem_zipIdx hp) hf h1
+
+/-! #### what `get_arg_options` hands to argparse, per annotation (the action's SHAPE) -/
+
+structure AO (ao : ArgOpts) (n : NArgs) (c : Conv) (ch : Option (List Str)) (b : Bool) (d : Val) :
+    Prop where
+  nargs : ao.nargs = n
+  conv : ao.conv = c
+  choices : ao.choices = ch
+  isBool : ao.isBool = b
+  default : ao.default = d
+
+/-- an Enum default is handed to argparse by NAME (field_wrapper.py:353-361) -/
+def enumDefault : Val → Val
+  | .sc (.enum _ n) => .sc (.str n)
+  | v => v
+
+/-- the branch of `get_arg_options` a field goes through, with everything the action gets -/
+inductive ShapeOf (f : FieldSpec) (ao : ArgOpts) : Prop
+  | literal (vals : List Scalar) (names : List Str) : f.ty.optional = false →
+      f.ty.inner = .literal vals → vals.mapM literalName = some names →
+      AO ao .one (.base .str) (some names) false (defaultVal f.default) → ShapeOf f ao
+  | tuple (items : List ITy) (c : Conv) : f.ty.inner = .tuple items → tupleConv items = some c →
+      AO ao (.num items.length) c none false (defaultVal f.default) → ShapeOf f ao
+  | vtuple (item : ITy) : f.ty.inner = .vtuple item →
+      AO ao .star (convOfItem item) none false (defaultVal f.default) → ShapeOf f ao
+  | list (item : ITy) (c : Conv) : f.ty.inner = .list item → containerConv item = some c →
+      AO ao .star c none false (defaultVal f.default) → ShapeOf f ao
+  | optScalar (t : ITy) : (f.ty.optional = true ∨ f.default = .value (.sc .none)) →
+      f.ty.inner = .sc t → AO ao .opt (convOfItem t) none false (defaultVal f.default) → ShapeOf f ao
+  | union (alts : List BTy) : f.ty.optional = false → f.ty.inner = .sc (.union alts) →
+      AO ao .one (.union (alts.map bconvOf)) none false (defaultVal f.default) → ShapeOf f ao
+  | enum (cls : Str) (ms : List Str) : f.ty.optional = false →
+      f.ty.inner = .sc (.base (.enum cls ms)) →
+      AO ao .one (.base .str) (some ms) false (enumDefault (defaultVal f.default)) → ShapeOf f ao
+  | bool : f.ty.optional = false → f.ty.inner = .sc (.base .bool) →
+      AO ao .opt (.base .bool) none true (defaultVal f.default) → ShapeOf f ao
+  | plain (b : BTy) : f.ty.optional = false → f.ty.inner = .sc (.base b) →
+      (∀ c m, b ≠ .enum c m) → AO ao .one (.base (bconvOf b)) none false (defaultVal f.default) → ShapeOf f ao
+
+theorem enumDefault_eq (v : Val) :
+    (match v with | .sc (.enum _ n) => Val.sc (.str n) | w => w) = enumDefault v := by
+  unfold enumDefault
+  split <;> rfl
+
+theorem argOptions_shape (f : FieldSpec) (ao : ArgOpts) (h : argOptions f = some ao) : ShapeOf f ao := by
+  obtain ⟨name, ⟨inner, opt⟩, d, als⟩ := f
+  unfold argOptions at h
+  simp only at h
+  cases inner with
+  | literal vals =>
+    cases opt
+    · simp only at h
+      cases hm : vals.mapM literalName with
+      | none => simp [hm] at h
+      | some names =>
+        simp only [hm, Option.map_some, Option.some.injEq] at h
+        subst h
+        exact .literal vals names rfl rfl hm ⟨rfl, rfl, rfl, rfl, rfl⟩
+    · simp at h
+  | sc t =>
+    cases opt <;> simp only [Bool.true_or, Bool.false_or, ↓reduceIte] at h
+    · split at h
+      · rename_i hnone
+        simp only [Option.some.injEq] at h; subst h
+        exact .optScalar t (Or.inr (by simpa using hnone)) rfl ⟨rfl, rfl, rfl, rfl, rfl⟩
+      · cases t with
+        | union alts =>
+          simp only [Option.some.injEq] at h; subst h
+          exact .union alts rfl rfl ⟨rfl, rfl, rfl, rfl, rfl⟩
+        | base b =>
+          cases b with
+          | «enum» cls ms =>
+            simp only [Option.some.injEq] at h; subst h
+            exact .enum cls ms rfl rfl ⟨rfl, rfl, rfl, rfl, enumDefault_eq _⟩
+          | bool =>
+            simp only [Option.some.injEq] at h; subst h
+            exact .bool rfl rfl ⟨rfl, rfl, rfl, rfl, rfl⟩
+          | int => simp only [Option.some.injEq] at h; subst h; exact .plain _ rfl rfl (by intro c m hh; cases hh) ⟨rfl, rfl, rfl, rfl, rfl⟩
+          | float => simp only [Option.some.injEq] at h; subst h; exact .plain _ rfl rfl (by intro c m hh; cases hh) ⟨rfl, rfl, rfl, rfl, rfl⟩
+          | str => simp only [Option.some.injEq] at h; subst h; exact .plain _ rfl rfl (by intro c m hh; cases hh) ⟨rfl, rfl, rfl, rfl, rfl⟩
+          | path => simp only [Option.some.injEq] at h; subst h; exact .plain _ rfl rfl (by intro c m hh; cases hh) ⟨rfl, rfl, rfl, rfl, rfl⟩
+          | any => simp only [Option.some.injEq] at h; subst h; exact .plain _ rfl rfl (by intro c m hh; cases hh) ⟨rfl, rfl, rfl, rfl, rfl⟩
+    · simp only [Option.some.injEq] at h; subst h
+      exact .optScalar t (Or.inl rfl) rfl ⟨rfl, rfl, rfl, rfl, rfl⟩
+  | list item =>
+    cases hc : containerConv item with
+    | none => cases opt <;> simp [hc] at h
+    | some c =>
+      cases opt <;> simp only [hc, Option.map_some, Bool.true_or, Bool.false_or, ↓reduceIte] at h
+      · split at h <;>
+          (simp only [Option.some.injEq] at h; subst h; exact .list item c rfl hc ⟨rfl, rfl, rfl, rfl, rfl⟩)
+      · simp only [Option.some.injEq] at h; subst h; exact .list item c rfl hc ⟨rfl, rfl, rfl, rfl, rfl⟩
+  | tuple items =>
+    cases hc : tupleConv items with
+    | none => cases opt <;> simp [hc] at h
+    | some c =>
+      cases opt <;> simp only [hc, Option.map_some, Bool.true_or, Bool.false_or, ↓reduceIte] at h
+      · split at h <;>
+          (simp only [Option.some.injEq] at h; subst h; exact .tuple items c rfl hc ⟨rfl, rfl, rfl, rfl, rfl⟩)
+      · simp only [Option.some.injEq] at h; subst h; exact .tuple items c rfl hc ⟨rfl, rfl, rfl, rfl, rfl⟩
+  | vtuple item =>
+    cases opt <;> simp only [Bool.true_or, Bool.false_or, ↓reduceIte] at h
+    · split at h <;>
+        (simp only [Option.some.injEq] at h; subst h; exact .vtuple item rfl ⟨rfl, rfl, rfl, rfl, rfl⟩)
+    · simp only [Option.some.injEq] at h; subst h; exact .vtuple item rfl ⟨rfl, rfl, rfl, rfl, rfl⟩
+
+/-! #### from the engine's invariant to the annotation -/
+
+theorem valOk_store_scalar (fenv : FEnv) (a : Act) (raw : Val) (hk : a.kind = .store)
+    (hn : a.nargs = .one ∨ a.nargs = .opt) (h : ValOk fenv a raw) :
+    (raw = .sc .none ∧ a.nargs = .opt) ∨ ∃ s, raw = .sc s ∧ InRange fenv a s := by
+  simp only [ValOk, hk] at h
+  rcases h with ⟨h1, h2⟩ | ⟨s, h1, h2, _⟩ | ⟨l, _, _, h3⟩
+  · exact Or.inl ⟨h1, h2⟩
+  · exact Or.inr ⟨s, h1, h2⟩
+  · rcases hn with hn | hn <;> (rw [hn] at h3; simp [ListArity] at h3)
+
+theorem valOk_store_list (fenv : FEnv) (a : Act) (raw : Val) (hk : a.kind = .store)
+    (hn : a.nargs = .star ∨ ∃ m, a.nargs = .num m) (h : ValOk fenv a raw) :
+    ∃ l, raw = .list l ∧ (∀ s ∈ l, InRange fenv a s) ∧ ListArity a.nargs l.length := by
+  simp only [ValOk, hk] at h
+  rcases h with ⟨_, h2⟩ | ⟨s, _, _, h2⟩ | ⟨l, h1, h2, h3⟩
+  · rcases hn with hn | ⟨m, hn⟩ <;> (rw [hn] at h2; cases h2)
+  · rcases hn with hn | ⟨m, hn⟩ <;> (rw [hn] at h2; rcases h2 with h2 | h2 <;> cases h2)
+  · exact ⟨l, h1, h2, h3⟩
+
+/-- `postprocess` leaves a conforming scalar of a non-optional scalar field alone -/
+theorem postprocess_sc_id (f : FieldSpec) (t : ITy) (s : Scalar) (hopt : f.ty.optional = false)
+    (hin : f.ty.inner = .sc t) (hc : IConforms t s) : postprocess f (.sc s) = .ok (.sc s) := by
+  unfold postprocess
+  rw [hopt, hin]
+  cases t with
+  | union alts => rfl
+  | base b =>
+    cases b with
+    | «enum» cls ms => cases s <;> simp [IConforms, BConforms] at hc ⊢
+    | path => cases s <;> simp [IConforms, BConforms] at hc ⊢
+    | int => rfl
+    | float => rfl
+    | str => rfl
+    | bool => rfl
+    | any => rfl
+
+theorem tupleConv_counter_len (items : List ITy) (bs : List BConv)
+    (h : tupleConv items = some (.tupleCounter bs)) : bs.length = items.length := by
+  unfold tupleConv at h
+  cases items with
+  | nil => simp at h
+  | cons t rest =>
+    simp only at h
+    split at h
+    · cases t <;> simp [convOfItem] at h
+    · split at h
+      · rename_i hlen
+        simp only [Option.some.injEq, Conv.tupleCounter.injEq] at h
+        rw [← h]; exact hlen
+      · cases h
+
+theorem listToTuple_list (l : List Scalar) : listToTuple (.list l) = .tuple l := rfl
+theorem tupleToList_list (l : List Scalar) : tupleToList (.list l) = .list l := rfl
+
+/-- **the core step**: a value the engine stored for a field's action (`ValOk` + positions), once
+    post-processed, conforms to the field's ANNOTATION — or is the `None` a bare option stores for a
+    non-Optional field declared with `= None` -/
+theorem conforms_of_shape (fenv : FEnv) (f : FieldSpec) (ao : ArgOpts) (hs : ShapeOf f ao) (a : Act)
+    (negs : List Str)
+    (hkind : a.kind = if ao.isBool then .boolOpt negs else .store) (hn : a.nargs = ao.nargs)
+    (hc : a.conv = ao.conv) (hch : a.choices = ao.choices)
+    (raw v : Val) (hv : ValOk fenv a raw) (hp : PosOk fenv a raw)
+    (hpost : postprocess f raw = .ok v) : Conforms f.ty v ∨ raw = defaultVal f.default := by
+  cases hs with
+  | literal vals names hopt hin hm hao =>
+    have hk : a.kind = .store := by rw [hkind, hao.isBool]; rfl
+    rw [hao.nargs] at hn
+    rw [hao.conv] at hc
+    rw [hao.choices] at hch
+    rcases valOk_store_scalar fenv a raw hk (Or.inl hn) hv with ⟨_, h2⟩ | ⟨s, rfl, k, t, hap, hcho⟩
+    · rw [hn] at h2; cases h2
+    · obtain ⟨u, rfl, hu⟩ := hcho names hch
+      left; right
+      unfold postprocess at hpost
+      rw [hopt, hin] at hpost
+      simp only at hpost
+      split at hpost
+      · rename_i w hw
+        simp only [PostOut.ok.injEq] at hpost
+        subst hpost
+        rw [hin]
+        have := List.mem_of_find?_eq_some hw
+        simp only [NConforms]
+        exact List.mem_reverse.mp this
+      · cases hpost
+  | tuple items c hin htc hao =>
+    have hk : a.kind = .store := by rw [hkind, hao.isBool]; rfl
+    rw [hao.nargs] at hn
+    rw [hao.conv] at hc
+    obtain ⟨l, rfl, _, hlen⟩ := valOk_store_list fenv a _ hk (Or.inr ⟨_, hn⟩) hv
+    rw [hn] at hlen
+    simp only [ListArity] at hlen
+    obtain ⟨k0, hk0, hpos⟩ := hp l rfl
+    have hconf : TupleConforms items l := by
+      apply tupleConv_conforms fenv items c htc l hlen k0
+      · intro bs hbs
+        apply hk0 bs (by rw [hc, hbs])
+        rw [hn, tupleConv_counter_len items bs (by rw [htc, hbs])]
+      · intro j s hjs
+        obtain ⟨t, ht⟩ := hpos j s hjs
+        refine ⟨t, ?_⟩
+        unfold tc at ht
+        rw [hc] at ht
+        exact ht
+    left; right
+    have hv' : v = .tuple l := by
+      unfold postprocess at hpost
+      rw [hin] at hpost
+      cases hopt : f.ty.optional <;> rw [hopt] at hpost <;>
+        simp only [listToTuple_list, PostOut.ok.injEq] at hpost <;> exact hpost.symm
+    subst hv'
+    rw [hin]
+    exact hconf
+  | vtuple item hin hao =>
+    have hk : a.kind = .store := by rw [hkind, hao.isBool]; rfl
+    rw [hao.nargs] at hn
+    rw [hao.conv] at hc
+    obtain ⟨l, rfl, hr, _⟩ := valOk_store_list fenv a _ hk (Or.inl hn) hv
+    left; right
+    have hv' : v = .tuple l := by
+      unfold postprocess at hpost
+      rw [hin] at hpost
+      cases hopt : f.ty.optional <;> rw [hopt] at hpost <;>
+        simp only [listToTuple_list, PostOut.ok.injEq] at hpost <;> exact hpost.symm
+    subst hv'
+    rw [hin]
+    intro s hs
+    obtain ⟨k, t, hap, _⟩ := hr s hs
+    rw [hc] at hap
+    exact convOfItem_conforms fenv item k t s hap
+  | list item c hin hcc hao =>
+    have hk : a.kind = .store := by rw [hkind, hao.isBool]; rfl
+    rw [hao.nargs] at hn
+    rw [hao.conv] at hc
+    obtain ⟨l, rfl, hr, _⟩ := valOk_store_list fenv a _ hk (Or.inl hn) hv
+    left; right
+    have hv' : v = .list l := by
+      unfold postprocess at hpost
+      rw [hin] at hpost
+      cases hopt : f.ty.optional <;> rw [hopt] at hpost <;>
+        simp only [tupleToList_list, PostOut.ok.injEq] at hpost <;> exact hpost.symm
+    subst hv'
+    rw [hin]
+    intro s hs
+    obtain ⟨k, t, hap, _⟩ := hr s hs
+    rw [hc] at hap
+    exact containerConv_conforms fenv item c hcc k t s hap
+  | optScalar t hor hin hao =>
+    have hk : a.kind = .store := by rw [hkind, hao.isBool]; rfl
+    rw [hao.nargs] at hn
+    rw [hao.conv] at hc
+    rcases valOk_store_scalar fenv a raw hk (Or.inr hn) hv with ⟨rfl, _⟩ | ⟨s, rfl, k, tk, hap, _⟩
+    · cases hopt : f.ty.optional with
+      | true =>
+        left; left
+        refine ⟨hopt, ?_⟩
+        unfold postprocess at hpost
+        rw [hopt, hin] at hpost
+        simp only [PostOut.ok.injEq] at hpost
+        exact hpost.symm
+      | false =>
+        right
+        rcases hor with h1 | h1
+        · rw [hopt] at h1; cases h1
+        · rw [h1]; rfl
+    · rw [hc] at hap
+      have hcs := convOfItem_conforms fenv t k tk s hap
+      cases hopt : f.ty.optional with
+      | true =>
+        left; right
+        unfold postprocess at hpost
+        rw [hopt, hin] at hpost
+        simp only [PostOut.ok.injEq] at hpost
+        subst hpost
+        rw [hin]; exact hcs
+      | false =>
+        left; right
+        rw [postprocess_sc_id f t s hopt hin hcs] at hpost
+        simp only [PostOut.ok.injEq] at hpost
+        subst hpost
+        rw [hin]; exact hcs
+  | union alts hopt hin hao =>
+    have hk : a.kind = .store := by rw [hkind, hao.isBool]; rfl
+    rw [hao.nargs] at hn
+    rw [hao.conv] at hc
+    rcases valOk_store_scalar fenv a raw hk (Or.inl hn) hv with ⟨_, h2⟩ | ⟨s, rfl, k, tk, hap, _⟩
+    · rw [hn] at h2; cases h2
+    · rw [hc] at hap
+      have hcs : IConforms (.union alts) s := union_conforms fenv alts tk s hap
+      left; right
+      rw [postprocess_sc_id f _ s hopt hin hcs] at hpost
+      simp only [PostOut.ok.injEq] at hpost
+      subst hpost
+      rw [hin]; exact hcs
+  | «enum» cls ms hopt hin hao =>
+    have hk : a.kind = .store := by rw [hkind, hao.isBool]; rfl
+    rw [hao.nargs] at hn
+    rw [hao.choices] at hch
+    rcases valOk_store_scalar fenv a raw hk (Or.inl hn) hv with ⟨_, h2⟩ | ⟨s, rfl, k, tk, _, hcho⟩
+    · rw [hn] at h2; cases h2
+    · obtain ⟨u, rfl, hu⟩ := hcho ms hch
+      left; right
+      unfold postprocess at hpost
+      rw [hopt, hin] at hpost
+      simp only [hu, ↓reduceIte, PostOut.ok.injEq] at hpost
+      subst hpost
+      rw [hin]
+      simp only [NConforms, IConforms, BConforms, true_and]
+      simpa using hu
+  | bool hopt hin hao =>
+    rw [hao.isBool] at hkind
+    simp only [↓reduceIte] at hkind
+    simp only [ValOk, hkind] at hv
+    obtain ⟨b, rfl⟩ := hv
+    left; right
+    unfold postprocess at hpost
+    rw [hopt, hin] at hpost
+    simp only [PostOut.ok.injEq] at hpost
+    subst hpost
+    rw [hin]
+    simp [NConforms, IConforms, BConforms]
+  | plain b hopt hin _ hao =>
+    have hk : a.kind = .store := by rw [hkind, hao.isBool]; rfl
+    rw [hao.nargs] at hn
+    rw [hao.conv] at hc
+    rcases valOk_store_scalar fenv a raw hk (Or.inl hn) hv with ⟨_, h2⟩ | ⟨s, rfl, k, tk, hap, _⟩
+    · rw [hn] at h2; cases h2
+    · rw [hc] at hap
+      have hcs : IConforms (.base b) s := bconv_conforms fenv b tk s hap
+      left; right
+      rw [postprocess_sc_id f _ s hopt hin hcs] at hpost
+      simp only [PostOut.ok.injEq] at hpost
+      subst hpost
+      rw [hin]; exact hcs
+
+/-! #### the whole flat pipeline: table construction → engine → `postprocess` -/
+
+/-- what a field gets when its value comes from its declared default: the default as handed to
+    argparse (an Enum member by name), possibly run through `type=` by argparse if it is a string,
+    then post-processed -/
+def FromDefault (fenv : FEnv) (f : FieldSpec) (v : Val) : Prop :=
+  ∃ raw, postprocess f raw = .ok v ∧
+    (raw = defaultVal f.default ∨ ∃ ao, argOptions f = some ao ∧
+      (raw = ao.default ∨ ∃ s k w, ao.default = .sc (.str s) ∧ ao.conv.apply fenv k s = .ok w ∧
+        raw = .sc w))
+
+/-- field by field: the right name, and a value that conforms to the annotation or comes from the
+    field's own default -/
+def FieldsOk (fenv : FEnv) : List FieldSpec → List (Str × Val) → Prop
+  | [], [] => True
+  | f :: fs, p :: ps =>
+    p.1 = f.name ∧ (Conforms f.ty p.2 ∨ FromDefault fenv f p.2) ∧ FieldsOk fenv fs ps
+  | _, _ => False
+
+/-- where the raw namespace value of a field can come from -/
+def RawCases (fenv : FEnv) (f : FieldSpec) (raw : Val) : Prop :=
+  raw = defaultVal f.default ∨ ∃ ao a negs, argOptions f = some ao ∧
+    a.kind = (if ao.isBool then .boolOpt negs else .store) ∧ a.nargs = ao.nargs ∧
+    a.conv = ao.conv ∧ a.choices = ao.choices ∧
+    (raw = ao.default ∨ (ValOk fenv a raw ∧ PosOk fenv a raw) ∨
+      ∃ s k w, ao.default = .sc (.str s) ∧ ao.conv.apply fenv k s = .ok w ∧ raw = .sc w)
+
+theorem fieldAct_inv (cfg : Cfg) (dest : Str) (f : FieldSpec) (a : Act)
+    (h : fieldAct cfg dest f = some a) :
+    ∃ ao negs, argOptions f = some ao ∧ a.dest = dest ++ '.' :: f.name ∧
+      a.kind = (if ao.isBool then .boolOpt negs else .store) ∧ a.nargs = ao.nargs ∧
+      a.conv = ao.conv ∧ a.choices = ao.choices ∧ a.default = some ao.default := by
+  unfold fieldAct at h
+  cases hao : argOptions f with
+  | none => simp [hao] at h
+  | some ao =>
+    simp only [hao, Option.map_some, Option.some.injEq] at h
+    subst h
+    exact ⟨ao, _, rfl, rfl, rfl, rfl, rfl, rfl, rfl⟩
+
+theorem tableOf_mem (cfg : Cfg) (dest : Str) (fs : List FieldSpec) (tbl : List Act)
+    (h : tableOf cfg dest fs = some tbl) (a : Act) (ha : a ∈ tbl) :
+    a = helpAct ∨ ∃ f ∈ fs, fieldAct cfg dest f = some a := by
+  unfold tableOf at h
+  cases hm : fs.mapM (fieldAct cfg dest) with
+  | none => simp [hm] at h
+  | some acts =>
+    simp only [hm, Option.map_some, Option.some.injEq] at h
+    subst h
+    rcases List.mem_cons.mp ha with rfl | ha'
+    · exact Or.inl rfl
+    · exact Or.inr (mapM_mem _ fs acts hm a ha')
+
+theorem nodup_map_inj {α β : Type} (g : α → β) : ∀ (l : List α), (l.map g).Nodup →
+    ∀ x ∈ l, ∀ y ∈ l, g x = g y → x = y
+  | [], _, x, hx, _, _, _ => by cases hx
+  | a :: as, hnd, x, hx, y, hy, hg => by
+    rw [List.map_cons, List.nodup_cons] at hnd
+    rcases List.mem_cons.mp hx with rfl | hx' <;> rcases List.mem_cons.mp hy with rfl | hy'
+    · rfl
+    · exact absurd (List.mem_map.mpr ⟨y, hy', hg.symm⟩) hnd.1
+    · exact absurd (List.mem_map.mpr ⟨x, hx', hg⟩) hnd.1
+    · exact nodup_map_inj g as hnd.2 x hx' y hy' hg
+
+theorem aligned_zeros (tbl : List Act) : Aligned tbl (tbl.map (fun _ => 0)) := by
+  refine ⟨by simp, ?_⟩
+  intro i act bs _ _ _
+  have : (tbl.map (fun _ => 0)).getD i 0 = 0 := by
+    rw [List.getD_eq_getElem?_getD, List.getElem?_map]
+    cases tbl[i]? <;> rfl
+  rw [this]
+  exact Nat.zero_mod _
+
+theorem runStrict_ok_run (fenv : FEnv) (tbl : List Act) (cs : List Nat) (argv : List Str)
+    (ns : List (Str × Val)) (ex : List Str) (cs' : List Nat)
+    (h : runStrict fenv tbl cs argv = .ok ns ex cs') : run fenv tbl cs argv = .ok ns ex cs' := by
+  unfold runStrict at h
+  split at h
+  · rename_i heq; rw [heq]; exact h
+  · cases h
+  · exact h
+
+/-- the namespace value of every field of a flat dataclass, after any accepted parse -/
+theorem field_raw_cases (fenv : FEnv) (cfg : Cfg) (dest : Str) (fs : List FieldSpec) (tbl : List Act)
+    (htbl : tableOf cfg dest fs = some tbl) (hnd : (fs.map (·.name)).Nodup)
+    (ns : List (Str × Val)) (hns : NsOkP fenv tbl ns) (f : FieldSpec) (hf : f ∈ fs) :
+    RawCases fenv f ((ns.lookup (dest ++ '.' :: f.name)).getD (defaultVal f.default)) := by
+  cases hl : ns.lookup (dest ++ '.' :: f.name) with
+  | none => exact Or.inl rfl
+  | some raw =>
+    simp only [Option.getD_some]
+    obtain ⟨a, ha, hd, hcase⟩ := hns _ (lookup_mem ns _ raw hl)
+    simp only at hd hcase
+    rcases tableOf_mem cfg dest fs tbl htbl a ha with rfl | ⟨f', hf', hfa⟩
+    · exfalso
+      have : '.' ∈ helpAct.dest := by rw [hd]; simp
+      simp [helpAct] at this
+    · obtain ⟨ao, negs, hao, hdest, hk, hn, hc, hch, hdef⟩ := fieldAct_inv cfg dest f' a hfa
+      have hname : f'.name = f.name := by
+        rw [hdest] at hd
+        have := List.append_cancel_left hd
+        simpa using this
+      have := nodup_map_inj (·.name) fs hnd f' hf' f hf hname
+      subst this
+      refine Or.inr ⟨ao, a, negs, hao, hk, hn, hc, hch, ?_⟩
+      rcases hcase with h1 | h1 | ⟨s, k, w, h1, h2, h3⟩
+      · rw [hdef] at h1
+        simp only [Option.some.injEq] at h1
+        exact Or.inl h1.symm
+      · exact Or.inr (Or.inl h1)
+      · rw [hdef] at h1
+        simp only [Option.some.injEq] at h1
+        rw [hc] at h2
+        exact Or.inr (Or.inr ⟨s, k, w, h1, h2, h3⟩)
+
+theorem rawCases_conforms (fenv : FEnv) (f : FieldSpec) (raw v : Val) (hr : RawCases fenv f raw)
+    (hpost : postprocess f raw = .ok v) : Conforms f.ty v ∨ FromDefault fenv f v := by
+  rcases hr with h0 | ⟨ao, a, negs, hao, hk, hn, hc, hch, h1 | ⟨hv, hp⟩ | ⟨s, k, w, h1, h2, h3⟩⟩
+  · exact Or.inr ⟨raw, hpost, Or.inl h0⟩
+  · exact Or.inr ⟨raw, hpost, Or.inr ⟨ao, hao, Or.inl h1⟩⟩
+  · rcases conforms_of_shape fenv f ao (argOptions_shape f ao hao) a negs hk hn hc hch raw v hv hp hpost
+      with h | h
+    · exact Or.inl h
+    · exact Or.inr ⟨raw, hpost, Or.inl h⟩
+  · exact Or.inr ⟨raw, hpost, Or.inr ⟨ao, hao, Or.inr ⟨s, k, w, h1, h2, h3⟩⟩⟩
+
+theorem postAll_fieldsOk (fenv : FEnv) (dest : Str) (ns : List (Str × Val)) :
+    ∀ (fs : List FieldSpec) (fields : List (Str × Val)), postAll dest ns fs = .ok fields →
+      (∀ f ∈ fs, RawCases fenv f ((ns.lookup (dest ++ '.' :: f.name)).getD (defaultVal f.default))) →
+      FieldsOk fenv fs fields := by
+  intro fs
+  induction fs with
+  | nil =>
+    intro fields h _
+    simp only [postAll, Except.ok.injEq] at h
+    subst h
+    trivial
+  | cons f rest ih =>
+    intro fields h hall
+    simp only [postAll] at h
+    cases hp : postprocess f ((ns.lookup (dest ++ '.' :: f.name)).getD (defaultVal f.default)) with
+    | raise e => rw [hp] at h; cases h
+    | ok v =>
+      rw [hp] at h
+      simp only at h
+      cases hr : postAll dest ns rest with
+      | error e => rw [hr] at h; cases h
+      | ok more =>
+        rw [hr] at h
+        simp only [Except.ok.injEq] at h
+        subst h
+        exact ⟨rfl, rawCases_conforms fenv f _ v (hall f (by simp)) hp,
+          ih more hr (fun g hg => hall g (by simp [hg]))⟩
+
+/-- **C04 (well-typed results), the whole flat pipeline.** For every dataclass of the modelled
+    annotation grammar with distinct field names, every naming configuration and EVERY command
+    line: if `parse_args` returns an instance, then field by field the value either conforms to the
+    field's ANNOTATION — `Optional` admits `None`; `List[T]` / `Tuple[T, ...]` item-wise;
+    `Tuple[t1, …, tn]` with exactly `n` items, item `j` conforming to `tj` (the alignment of the
+    `parse_tuple` counter is proved, not assumed); `Literal` one of the values; `Enum` a member;
+    `Union` one of the members — or it is the field's own declared default (possibly run through
+    `type=` by argparse). No raw token, no truncated or padded tuple, no `None` for a non-Optional
+    field that was given a value. -/
+theorem c04_conforms_flat (fenv : FEnv) (cfg : Cfg) (dest : Str) (fs : List FieldSpec)
+    (argv : List Str) (fields : List (Str × Val)) (hnd : (fs.map (·.name)).Nodup)
+    (h : parseFlat fenv cfg dest fs argv = .ok fields) : FieldsOk fenv fs fields := by
+  unfold parseFlat at h
+  cases htbl : tableOf cfg dest fs with
+  | none => rw [htbl] at h; cases h
+  | some tbl =>
+    rw [htbl] at h
+    simp only at h
+    cases hr : runStrict fenv tbl (tbl.map (fun _ => 0)) argv with
+    | ok ns ex cs' =>
+      rw [hr] at h
+      simp only at h
+      cases hp : postAll dest ns fs with
+      | error e => rw [hp] at h; cases h
+      | ok r =>
+        rw [hp] at h
+        simp only [POut.ok.injEq] at h
+        subst h
+        have hns := c04_sound_positions fenv tbl _ argv ns ex cs' (aligned_zeros tbl)
+          (runStrict_ok_run fenv tbl _ argv ns ex cs' hr)
+        exact postAll_fieldsOk fenv dest ns fs r hp
+          (fun f hf => field_raw_cases fenv cfg dest fs tbl htbl hnd ns hns f hf)
+    | exit c k => rw [hr] at h; cases h
+    | raise e => rw [hr] at h; cases h
+    | unmodelled w => rw [hr] at h; cases h
+
+/-! #### never a traceback, for the WHOLE pipeline (review item 2) -/
+
+/-- the declared defaults are well-typed (`= None` is always allowed, issue #132) -/
+def DefaultsConform (fs : List FieldSpec) : Prop :=
+  ∀ f ∈ fs, ∀ v, f.default = .value v → Conforms f.ty v ∨ v = .sc .none
+
+theorem postprocess_raise_inv (f : FieldSpec) (raw : Val) (x : Str) (h : postprocess f raw = .raise x) :
+    f.ty.optional = false ∧ ∃ s, raw = .sc (.str s) ∧
+      ((∃ cls ms, f.ty.inner = .sc (.base (.enum cls ms)) ∧ ms.contains s = false) ∨
+       (∃ vals, f.ty.inner = .literal vals ∧
+          vals.reverse.find? (fun v => literalName v = some s) = none)) := by
+  obtain ⟨name, ⟨inner, opt⟩, d, als⟩ := f
+  cases opt with
+  | true => cases inner <;> simp [postprocess] at h
+  | false =>
+    cases inner with
+    | sc t =>
+      cases t with
+      | union alts => simp [postprocess] at h
+      | base b =>
+        cases b with
+        | «enum» cls ms =>
+          simp only [postprocess] at h
+          split at h
+          · split at h
+            · cases h
+            · rename_i s hs
+              exact ⟨rfl, s, rfl, Or.inl ⟨cls, ms, rfl, by simpa using hs⟩⟩
+          · cases h
+        | path => simp only [postprocess] at h; split at h <;> cases h
+        | int => simp [postprocess] at h
+        | float => simp [postprocess] at h
+        | str => simp [postprocess] at h
+        | bool => simp [postprocess] at h
+        | any => simp [postprocess] at h
+    | literal vals =>
+      simp only [postprocess] at h
+      split at h
+      · rename_i s
+        cases hfind : vals.reverse.find? (fun v => literalName v = some s) with
+        | some w => rw [hfind] at h; cases h
+        | none => exact ⟨rfl, s, rfl, Or.inr ⟨vals, rfl, hfind⟩⟩
+      · cases h
+    | list item => simp [postprocess] at h
+    | tuple items => simp [postprocess] at h
+    | vtuple item => simp [postprocess] at h
+
+theorem defaultVal_str (d : DefaultV) (s : Str) (h : defaultVal d = .sc (.str s)) :
+    d = .value (.sc (.str s)) := by
+  cases d with
+  | missing => cases h
+  | value v => simp only [defaultVal] at h; rw [h]
+
+theorem enumDefault_str (v : Val) (s : Str) (h : enumDefault v = .sc (.str s)) :
+    v = .sc (.str s) ∨ ∃ c, v = .sc (.enum c s) := by
+  unfold enumDefault at h
+  split at h
+  · simp only [Val.sc.injEq, Scalar.str.injEq] at h; subst h; exact Or.inr ⟨_, rfl⟩
+  · exact Or.inl h
+
+/-- a string in the namespace of an Enum field is a member name (given a well-typed default) -/
+theorem raw_str_valid_enum (fenv : FEnv) (f : FieldSpec) (cls : Str) (ms : List Str)
+    (hopt : f.ty.optional = false) (hin : f.ty.inner = .sc (.base (.enum cls ms)))
+    (hdc : ∀ v, f.default = .value v → Conforms f.ty v ∨ v = .sc .none)
+    (raw : Val) (s : Str) (hr : RawCases fenv f raw) (hs : raw = .sc (.str s)) :
+    ms.contains s = true := by
+  -- a declared default `.str s` is ill-typed for an Enum field
+  have hbad : f.default ≠ .value (.sc (.str s)) := by
+    intro hd
+    rcases hdc _ hd with h | h
+    · simp [Conforms, hopt, hin, NConforms, IConforms, BConforms] at h
+    · cases h
+  have hdecl : ∀ c, f.default = .value (.sc (.enum c s)) → ms.contains s = true := by
+    intro c hd
+    rcases hdc _ hd with h | h
+    · simp only [Conforms, hopt, hin, NConforms, IConforms, BConforms] at h
+      rcases h with ⟨h, _⟩ | ⟨_, h⟩
+      · cases h
+      · simpa using h
+    · cases h
+  subst hs
+  rcases hr with h0 | ⟨ao, a, negs, hao, hk, hn, hc, hch, hcase⟩
+  · exact absurd (defaultVal_str _ _ h0.symm) hbad
+  · have hsh := argOptions_shape f ao hao
+    cases hsh with
+    | literal vals names _ hin' _ _ => rw [hin] at hin'; cases hin'
+    | tuple items c hin' _ _ => rw [hin] at hin'; cases hin'
+    | vtuple item hin' _ => rw [hin] at hin'; cases hin'
+    | list item c hin' _ _ => rw [hin] at hin'; cases hin'
+    | union alts _ hin' _ => rw [hin] at hin'; cases hin'
+    | bool _ hin' _ => rw [hin] at hin'; cases hin'
+    | plain b _ hin' hne _ =>
+      rw [hin] at hin'
+      simp only [NTy.sc.injEq, ITy.base.injEq] at hin'
+      exact absurd hin'.symm (hne cls ms)
+    | optScalar t hor hin' hao' =>
+      rw [hin] at hin'
+      simp only [NTy.sc.injEq] at hin'
+      subst hin'
+      have hkk : a.kind = .store := by rw [hk, hao'.isBool]; rfl
+      rcases hcase with h1 | ⟨hv, _⟩ | ⟨s0, k, w, h1, h2, h3⟩
+      · rw [hao'.default] at h1
+        exact absurd (defaultVal_str _ _ h1.symm) hbad
+      · rw [hao'.nargs] at hn
+        rw [hao'.conv] at hc
+        rcases valOk_store_scalar fenv a _ hkk (Or.inr hn) hv with ⟨h, _⟩ | ⟨s', h, k, t, hap, _⟩
+        · cases h
+        · simp only [Val.sc.injEq] at h
+          subst h
+          rw [hc] at hap
+          have := convOfItem_conforms fenv _ k t _ hap
+          simp [IConforms, BConforms] at this
+      · rw [hao'.conv] at h2
+        simp only [Val.sc.injEq] at h3
+        subst h3
+        have := convOfItem_conforms fenv _ k s0 _ h2
+        simp [IConforms, BConforms] at this
+    | «enum» cls' ms' _ hin' hao' =>
+      rw [hin] at hin'
+      simp only [NTy.sc.injEq, ITy.base.injEq, BTy.enum.injEq] at hin'
+      obtain ⟨rfl, rfl⟩ := hin'
+      have hkk : a.kind = .store := by rw [hk, hao'.isBool]; rfl
+      have hfromdefault : ao.default = .sc (.str s) → ms.contains s = true := by
+        intro h1
+        rw [hao'.default] at h1
+        rcases enumDefault_str _ _ h1 with h | ⟨c, h⟩
+        · exact absurd (defaultVal_str _ _ h) hbad
+        · cases hd : f.default with
+          | missing => rw [hd] at h; cases h
+          | value v =>
+            rw [hd] at h
+            simp only [defaultVal] at h
+            subst h
+            exact hdecl c hd
+      rcases hcase with h1 | ⟨hv, _⟩ | ⟨s0, k, w, h1, h2, h3⟩
+      · exact hfromdefault h1.symm
+      · rw [hao'.nargs] at hn
+        rw [hao'.choices] at hch
+        rcases valOk_store_scalar fenv a _ hkk (Or.inl hn) hv with ⟨h, _⟩ | ⟨s', h, k, t, _, hcho⟩
+        · cases h
+        · simp only [Val.sc.injEq] at h
+          subst h
+          obtain ⟨u, hu, hmem⟩ := hcho ms hch
+          simp only [Scalar.str.injEq] at hu
+          subst hu
+          exact hmem
+      · rw [hao'.conv] at h2
+        simp only [Conv.apply, BConv.apply, ConvOut.ok.injEq] at h2
+        subst h2
+        simp only [Val.sc.injEq, Scalar.str.injEq] at h3
+        subst h3
+        exact hfromdefault h1
+
+/-- a string in the namespace of a Literal field is the name of one of the values -/
+theorem raw_str_valid_literal (fenv : FEnv) (f : FieldSpec) (vals : List Scalar)
+    (hopt : f.ty.optional = false) (hin : f.ty.inner = .literal vals)
+    (hdc : ∀ v, f.default = .value v → Conforms f.ty v ∨ v = .sc .none)
+    (raw : Val) (s : Str) (hr : RawCases fenv f raw) (hs : raw = .sc (.str s)) :
+    ∃ v ∈ vals, literalName v = some s := by
+  have hdecl : f.default = .value (.sc (.str s)) → ∃ v ∈ vals, literalName v = some s := by
+    intro hd
+    rcases hdc _ hd with h | h
+    · simp only [Conforms, hopt, hin, NConforms] at h
+      rcases h with ⟨h, _⟩ | h
+      · cases h
+      · exact ⟨_, h, rfl⟩
+    · cases h
+  subst hs
+  rcases hr with h0 | ⟨ao, a, negs, hao, hk, hn, hc, hch, hcase⟩
+  · exact hdecl (defaultVal_str _ _ h0.symm)
+  · have hsh := argOptions_shape f ao hao
+    cases hsh with
+    | tuple items c hin' _ _ => rw [hin] at hin'; cases hin'
+    | vtuple item hin' _ => rw [hin] at hin'; cases hin'
+    | list item c hin' _ _ => rw [hin] at hin'; cases hin'
+    | union alts _ hin' _ => rw [hin] at hin'; cases hin'
+    | bool _ hin' _ => rw [hin] at hin'; cases hin'
+    | plain b _ hin' _ _ => rw [hin] at hin'; cases hin'
+    | optScalar t _ hin' _ => rw [hin] at hin'; cases hin'
+    | «enum» cls' ms' _ hin' _ => rw [hin] at hin'; cases hin'
+    | literal vals' names _ hin' hm hao' =>
+      rw [hin] at hin'
+      simp only [NTy.literal.injEq] at hin'
+      subst hin'
+      have hkk : a.kind = .store := by rw [hk, hao'.isBool]; rfl
+      rcases hcase with h1 | ⟨hv, _⟩ | ⟨s0, k, w, h1, h2, h3⟩
+      · rw [hao'.default] at h1
+        exact hdecl (defaultVal_str _ _ h1.symm)
+      · rw [hao'.nargs] at hn
+        rw [hao'.choices] at hch
+        rcases valOk_store_scalar fenv a _ hkk (Or.inl hn) hv with ⟨h, _⟩ | ⟨s', h, k, t, _, hcho⟩
+        · cases h
+        · simp only [Val.sc.injEq] at h
+          subst h
+          obtain ⟨u, hu, hmem⟩ := hcho names hch
+          simp only [Scalar.str.injEq] at hu
+          subst hu
+          obtain ⟨x, hx, hg⟩ := mapM_mem _ vals names hm s (by simpa using hmem)
+          exact ⟨x, hx, hg⟩
+      · rw [hao'.conv] at h2
+        simp only [Conv.apply, BConv.apply, ConvOut.ok.injEq] at h2
+        subst h2
+        simp only [Val.sc.injEq, Scalar.str.injEq] at h3
+        subst h3
+        rw [hao'.default] at h1
+        exact hdecl (defaultVal_str _ _ h1)
+
+theorem postAll_noraise (fenv : FEnv) (dest : Str) (ns : List (Str × Val)) :
+    ∀ (fs : List FieldSpec) (x : Str),
+      (∀ f ∈ fs, RawCases fenv f ((ns.lookup (dest ++ '.' :: f.name)).getD (defaultVal f.default))) →
+      DefaultsConform fs → postAll dest ns fs ≠ .error x := by
+  intro fs
+  induction fs with
+  | nil => intro x _ _ h; simp [postAll] at h
+  | cons f rest ih =>
+    intro x hall hdc h
+    simp only [postAll] at h
+    cases hp : postprocess f ((ns.lookup (dest ++ '.' :: f.name)).getD (defaultVal f.default)) with
+    | raise e =>
+      obtain ⟨hopt, s, hs, hcase⟩ := postprocess_raise_inv f _ e hp
+      have hr := hall f (by simp)
+      have hdf := hdc f (by simp)
+      rcases hcase with ⟨cls, ms, hin, hno⟩ | ⟨vals, hin, hno⟩
+      · have := raw_str_valid_enum fenv f cls ms hopt hin hdf _ s hr hs
+        rw [hno] at this; cases this
+      · obtain ⟨v, hv, hname⟩ := raw_str_valid_literal fenv f vals hopt hin hdf _ s hr hs
+        rw [List.find?_eq_none] at hno
+        exact hno v (List.mem_reverse.mpr hv) (by simp [hname])
+    | ok v =>
+      rw [hp] at h
+      simp only at h
+      cases hr : postAll dest ns rest with
+      | error e =>
+        exact ih e (fun g hg => hall g (by simp [hg])) (fun g hg => hdc g (by simp [hg])) hr
+      | ok more => rw [hr] at h; cases h
+
+/-- **C04 (never a traceback), the WHOLE flat pipeline including `postprocess`.** For every
+    dataclass of the modelled grammar with distinct field names whose declared defaults are
+    well-typed, every naming configuration and EVERY command line: `parse_args` returns an instance
+    or exits — no exception escapes, neither from the engine nor from the post-processing of
+    Enum / Literal fields (`self.type[raw]`, `choice_dict[raw]`). -/
+theorem c04_no_traceback_pipeline (fenv : FEnv) (cfg : Cfg) (dest : Str) (fs : List FieldSpec)
+    (argv : List Str) (hnd : (fs.map (·.name)).Nodup) (hdc : DefaultsConform fs) (x : Str) :
+    parseFlat fenv cfg dest fs argv ≠ .raise x := by
+  intro h
+  unfold parseFlat at h
+  cases htbl : tableOf cfg dest fs with
+  | none => rw [htbl] at h; cases h
+  | some tbl =>
+    rw [htbl] at h
+    simp only at h
+    cases hr : runStrict fenv tbl (tbl.map (fun _ => 0)) argv with
+    | ok ns ex cs' =>
+      rw [hr] at h
+      simp only at h
+      cases hp : postAll dest ns fs with
+      | ok r => rw [hp] at h; cases h
+      | error e =>
+        have hns := c04_sound_positions fenv tbl _ argv ns ex cs' (aligned_zeros tbl)
+          (runStrict_ok_run fenv tbl _ argv ns ex cs' hr)
+        exact postAll_noraise fenv dest ns fs e
+          (fun f hf => field_raw_cases fenv cfg dest fs tbl htbl hnd ns hns f hf) hdc hp
+    | exit c k => rw [hr] at h; cases h
+    | raise e =>
+      exact c04_no_traceback_flat fenv cfg dest fs tbl htbl _ argv e hr
+    | unmodelled w => rw [hr] at h; cases h
+
+/-- the unrestricted statement (no hypothesis on the declared defaults) … -/
+def NoTracebackPipeline : Prop :=
+  ∀ (fenv : FEnv) (cfg : Cfg) (dest : Str) (fs : List FieldSpec) (argv : List Str) (x : Str),
+    (fs.map (·.name)).Nodup → parseFlat fenv cfg dest fs argv ≠ .raise x
+
+def colorField (d : DefaultV) : FieldSpec :=
+  { name := "color".toList,
+    ty := { inner := .sc (.base (.enum "Color".toList ["RED".toList, "GREEN".toList])), optional := false },
+    default := d }
+
+theorem parseFlat_color_purple :
+    parseFlat [] { dash := .underscore, gen := .flat, nest := .default } "c".toList
+      [colorField (.value (.sc (.str "PURPLE".toList)))] [] = .raise "KeyError".toList := by
+  rfl
+
+/-- … is FALSE for the code as it is: `color: Color = "PURPLE"` (a string default that is no member
+    name) makes the EMPTY command line raise `KeyError` from `postprocess` (`self.type[raw]`,
+    field_wrapper.py) instead of exiting with status 2 — finding C04-str-default-keyerror. The
+    exclusion `DefaultsConform` of `c04_no_traceback_pipeline` is exactly what rules this out. -/
+theorem c04_default_keyerror_witness : ¬ NoTracebackPipeline := by
+  intro h
+  exact h [] { dash := .underscore, gen := .flat, nest := .default } "c".toList
+    [colorField (.value (.sc (.str "PURPLE".toList)))] [] "KeyError".toList (by simp [colorField])
+    parseFlat_color_purple
+
+/-- non-vacuity of `DefaultsConform` / `c04_no_traceback_pipeline` / `c04_conforms_flat`: the same
+    field with the member default `Color.RED` -/
+example : DefaultsConform [colorField (.value (.sc (.enum "Color".toList "RED".toList)))] := by
+  intro f hf v hv
+  simp only [List.mem_singleton] at hf
+  subst hf
+  simp only [colorField, DefaultV.value.injEq] at hv
+  subst hv
+  left; right
+  simp [colorField, NConforms, IConforms, BConforms]
+
+/-! ### 11. non-vacuity: every new theorem instantiated on concrete command lines -/
+
+theorem demoTbl_noRaise : NoRaiseTbl demoTbl :=
+  ⟨by intro a ha cs; simp [demoTbl, helpAct] at ha; rcases ha with h | h | h <;> subst h <;> simp,
+   by intro a ha negs hk; simp [demoTbl, helpAct] at ha; rcases ha with h | h | h <;> subst h <;> simp at hk⟩
+
+/-- a table as simple-parsing builds it for `flag: bool = False; t: Tuple[int, str] = None` -/
+def flagTbl : List Act :=
+  [ helpAct,
+    { opts := ["--flag".toList, "--noflag".toList], dest := "c.flag".toList,
+      kind := .boolOpt ["--noflag".toList], nargs := .opt, conv := .base .bool, choices := none,
+      required := false, default := some (.sc (.bool false)) },
+    { opts := ["--t".toList], dest := "c.t".toList, kind := .store, nargs := .num 2,
+      conv := .tupleCounter [.int, .str], choices := none, required := false,
+      default := some (.sc .none) } ]
+
+theorem flagTbl_noRaise : NoRaiseTbl flagTbl :=
+  ⟨by intro a ha cs; simp [flagTbl, helpAct] at ha; rcases ha with h | h | h <;> subst h <;> simp
+      <;> (intro h; subst h; simp),
+   by intro a ha negs hk; simp [flagTbl, helpAct] at ha; rcases ha with h | h | h <;> subst h <;> simp at hk ⊢⟩
+
+theorem flagTbl_aligned : Aligned flagTbl [0, 0, 0] := ⟨rfl, by
+  intro i act bs h hc hn
+  match i, h with
+  | 0, h => simp
+  | 1, h => simp
+  | 2, h => simp
+  | _ + 3, h => simp [flagTbl] at h⟩
+
+/-- the dead branches: a help request exits 0 and has its token; a non-ASCII digit is the only kind
+    of "unmodelled" -/
+example : runStrict [] demoTbl [0, 0, 0] ["--he".toList] = .exit 0 .help := by decide
+example : runStrict [] demoTbl [0, 0, 0] ["--n".toList, "١".toList] =
+    .unmodelled "type conversion outside the modelled fragment" := by decide
+example : ConversionWhy "type conversion outside the modelled fragment" :=
+  c04_unmodelled_reasons [] demoTbl [0, 0, 0] ["--n".toList, "١".toList] _ (by decide)
+
+theorem noHelp_of_lex (tbl : List Act) (argv : List Str) (toks : List Tok)
+    (hlex : lexAll tbl argv = .ok toks)
+    (h : ∀ t ∈ toks, ∀ i o ex, t = Tok.O (some i) o ex → ∀ act, tbl[i]? = some act → act.kind ≠ .help) :
+    NoHelpToken tbl argv := by
+  intro toks' i o ex act hlex' hm hact
+  rw [hlex] at hlex'
+  cases hlex'
+  exact h _ hm i o ex rfl act hact
+
+/-- `--l a b` (required `--n` missing) IS exit status 2 — `c04_missing_required_any` composed with
+    `c04_rejection_is_status2` -/
+example : ∃ k, runStrict [] demoTbl [0, 0, 0] ["--l".toList, "a".toList, "b".toList] = .exit 2 k := by
+  have hrej : ∀ ns ex cs',
+      runStrict [] demoTbl [0, 0, 0] ["--l".toList, "a".toList, "b".toList] ≠ .ok ns ex cs' :=
+    c04_missing_required_any [] demoTbl [0, 0, 0] _ (demoTbl[1]'(by decide)) 1 (by decide) rfl
+      (by intro toks o e hlex
+          have h2 : lexAll demoTbl ["--l".toList, "a".toList, "b".toList] =
+            .ok [.O (some 2) "--l".toList none, .A, .A] := by rfl
+          rw [h2] at hlex; cases hlex; simp)
+  have hnh : NoHelpToken demoTbl ["--l".toList, "a".toList, "b".toList] :=
+    noHelp_of_lex demoTbl _ [.O (some 2) "--l".toList none, .A, .A] rfl (by
+      intro t ht i o ex he act hact
+      simp only [List.mem_cons, List.not_mem_nil, or_false] at ht
+      rcases ht with rfl | rfl | rfl
+      · simp only [Tok.O.injEq, Option.some.injEq] at he
+        obtain ⟨rfl, _, _⟩ := he
+        simp only [demoTbl, List.getElem?_cons_succ, List.getElem?_cons_zero, Option.some.injEq] at hact
+        subst hact
+        simp
+      · cases he
+      · cases he)
+  rcases c04_rejection_is_status2 [] demoTbl demoTbl_noRaise [0, 0, 0] _ hnh hrej with h | ⟨w, h, _⟩
+  · exact h
+  · have : runStrict [] demoTbl [0, 0, 0] ["--l".toList, "a".toList, "b".toList] = .exit 2 .required := by
+      decide
+    rw [this] at h; cases h
+
+/-- `--t 1 a --noflag=true`: a value on the negative flag, behind a valid tuple -/
+example : ∀ ns ex cs', runStrict [] flagTbl [0, 0, 0]
+    (["--t".toList, "1".toList, "a".toList] ++ ("--noflag".toList ++ '=' :: "true".toList) :: []) ≠
+      .ok ns ex cs' :=
+  c04_negflag_eq_argv [] flagTbl flagTbl_noRaise [0, 0, 0] _ [] "--noflag".toList "true".toList 1
+    "-noflag".toList (by decide) rfl (by decide) (by decide) (by decide) _ ["--noflag".toList] rfl rfl
+    (by decide)
+
+/-- `--noflag false --t 1 a`: the other spelling, in front of a valid tuple -/
+example : ∀ ns ex cs', runStrict [] flagTbl [0, 0, 0]
+    ["--noflag".toList, "false".toList, "--t".toList, "1".toList, "a".toList] ≠ .ok ns ex cs' :=
+  c04_negflag_space_argv [] flagTbl flagTbl_noRaise [0, 0, 0] _ [] "--noflag".toList 1 "false".toList []
+    ["--t".toList, "1".toList, "a".toList]
+    ⟨rfl, by simp, by decide, ⟨_, rfl⟩, by decide, by intro v hv; simp at hv; subst hv; simp [NoDash]⟩
+    _ ["--noflag".toList] rfl rfl (by decide)
+
+/-- `--flag --t 1` (one value for `Tuple[int, str]`), `--t 1 a b --flag` (three), `--t=1` -/
+example : ∀ ns ex cs', runStrict [] flagTbl [0, 0, 0]
+    ["--flag".toList, "--t".toList, "1".toList] ≠ .ok ns ex cs' :=
+  c04_arity_short_argv [] flagTbl [0, 0, 0] _ ["--flag".toList] "--t".toList 2 ["1".toList] []
+    ⟨rfl, by decide, by decide, ⟨_, rfl⟩, by decide, by intro v hv; simp at hv; subst hv; simp [NoDash]⟩
+    (by intro p ps h; cases h) _ 2 rfl rfl (by decide)
+
+example : ∀ ns ex cs', runStrict [] flagTbl [0, 0, 0]
+    ["--t".toList, "1".toList, "a".toList, "b".toList, "--flag".toList] ≠ .ok ns ex cs' :=
+  c04_arity_long_argv [] flagTbl [0, 0, 0] _ [] "--t".toList 2 ["1".toList, "a".toList, "b".toList]
+    ["--flag".toList]
+    ⟨rfl, by simp, by decide, ⟨_, rfl⟩, by decide,
+      by intro v hv; simp at hv; rcases hv with rfl | rfl | rfl <;> simp [NoDash]⟩
+    _ 2 rfl rfl (by decide)
+
+example : ∀ ns ex cs', runStrict [] flagTbl [0, 0, 0] ["--t=1".toList] ≠ .ok ns ex cs' :=
+  c04_arity_eq_rejected [] flagTbl [0, 0, 0] _ [.O (some 2) "--t".toList (some "1".toList)] rfl
+    "--t=1".toList 2 "--t".toList "1".toList _ 2 (by simp) rfl rfl (by decide)
+
+/-- `--l a b --n abc`: an ill-typed token for `int`, behind a valid option -/
+example : ∀ ns ex cs', runStrict [] demoTbl [0, 0, 0]
+    ["--l".toList, "a".toList, "b".toList, "--n".toList, "abc".toList] ≠ .ok ns ex cs' :=
+  c04_bad_value_argv [] demoTbl [0, 0, 0] _ ["--l".toList, "a".toList, "b".toList] "--n".toList 1
+    ["abc".toList] []
+    ⟨rfl, by decide, by decide, ⟨_, rfl⟩, by decide, by intro v hv; simp at hv; subst hv; simp [NoDash]⟩
+    _ rfl 0 "abc".toList rfl rfl (never_int [] _ 1 _ rfl (by decide))
+
+example : ∀ ns ex cs', runStrict [] demoTbl [0, 0, 0] ["--n=1.5".toList] ≠ .ok ns ex cs' :=
+  c04_bad_value_eq_rejected [] demoTbl [0, 0, 0] _ [.O (some 1) "--n".toList (some "1.5".toList)] rfl
+    "--n=1.5".toList 1 "--n".toList "1.5".toList _ (by simp) rfl (never_int [] _ 1 _ rfl (by decide))
+
+/-- `--t 1 a --t b 2`: the SECOND occurrence has a string where `Tuple[int, str]` wants its int —
+    `b` would be fine at position 1, and the closure counter stands at 2 when it is converted; the
+    alignment invariant is what selects `int` for it -/
+example : ∀ ns ex cs', runStrict [] flagTbl [0, 0, 0]
+    ["--t".toList, "1".toList, "a".toList, "--t".toList, "b".toList, "2".toList] ≠ .ok ns ex cs' :=
+  c04_hetero_bad_argv [] flagTbl [0, 0, 0] flagTbl_aligned _ ["--t".toList, "1".toList, "a".toList]
+    "--t".toList 2 ["b".toList, "2".toList] []
+    ⟨rfl, by decide, by decide, ⟨_, rfl⟩, by decide,
+      by intro v hv; simp at hv; rcases hv with rfl | rfl <;> simp [NoDash]⟩
+    _ [.int, .str] rfl rfl rfl 0 "b".toList .int rfl rfl
+    (by intro v h; have : BConv.apply [] .int "b".toList = .typeErr := by decide
+        rw [this] at h; cases h)
+
+/-- `--n 1 --zzz`: an unknown long option, the lexer's verdict derived from the spelling -/
+example : ∀ ns ex cs', runStrict [] demoTbl [0, 0, 0]
+    (["--n".toList, "1".toList] ++ "--zzz".toList :: []) ≠ .ok ns ex cs' :=
+  c04_unknown_long_rejected [] demoTbl [0, 0, 0] ["--n".toList, "1".toList] [] "zzz".toList (by decide)
+    (by decide) (by decide) (by decide) (by decide)
+
+/-- the stored-value invariant now refuses a 3-item list for `Tuple[int, str]` (nargs = 2) … -/
+example : ¬ ValOk [] (tupTbl[0]'(by decide)) (.list [.str "a".toList, .str "b".toList, .str "c".toList]) := by
+  simp [ValOk, tupTbl, ListArity]
+
+/-- … and `None` for a `nargs=None` action -/
+example : ¬ ValOk [] (demoTbl[1]'(by decide)) (.sc .none) := by
+  simp [ValOk, demoTbl, ListArity, InRange, Conv.apply]
+  intro t h
+  have := conv_int_range [] t _ h
+  simp at this
+
+/-- `c04_conforms_flat` on a concrete dataclass `t: Tuple[int, str] = (0, "z"); color: Color = RED`:
+    the accepted command line `--t 5 x --color GREEN` -/
+def demoFields : List FieldSpec :=
+  [ { name := "t".toList, ty := { inner := .tuple [.base .int, .base .str], optional := false },
+      default := .value (.tuple [.int 0, .str "z".toList]) },
+    colorField (.value (.sc (.enum "Color".toList "RED".toList))) ]
+
+example : parseFlat [] { dash := .underscore, gen := .flat, nest := .default } "c".toList demoFields
+    ["-t".toList, "5".toList, "x".toList, "--color".toList, "GREEN".toList] =
+    .ok [("t".toList, .tuple [.int 5, .str "x".toList]),
+         ("color".toList, .sc (.enum "Color".toList "GREEN".toList))] := by rfl
+
+example : FieldsOk [] demoFields
+    [("t".toList, .tuple [.int 5, .str "x".toList]),
+     ("color".toList, .sc (.enum "Color".toList "GREEN".toList))] :=
+  c04_conforms_flat [] { dash := .underscore, gen := .flat, nest := .default } "c".toList demoFields
+    ["-t".toList, "5".toList, "x".toList, "--color".toList, "GREEN".toList] _
+    (by simp [demoFields, colorField]) (by rfl)
+
+/-! #### with well-typed declared defaults, EVERY field conforms to its annotation -/
+
+theorem postprocess_none (f : FieldSpec) (v : Val) (h : postprocess f (.sc .none) = .ok v) :
+    v = .sc .none := by
+  obtain ⟨name, ⟨inner, opt⟩, d, als⟩ := f
+  cases opt with
+  | true =>
+    cases inner <;> simp [postprocess, listToTuple] at h <;> exact h.symm
+  | false =>
+    cases inner with
+    | sc t =>
+      cases t with
+      | union alts => simp [postprocess] at h; exact h.symm
+      | base b => cases b <;> simp [postprocess] at h <;> exact h.symm
+    | literal vals => simp [postprocess] at h; exact h.symm
+    | list item => simp [postprocess, tupleToList] at h; exact h.symm
+    | tuple items => simp [postprocess, listToTuple] at h; exact h.symm
+    | vtuple item => simp [postprocess, listToTuple] at h; exact h.symm
+
+/-- `postprocess` maps a conforming raw value to a conforming field value -/
+theorem postprocess_conforms (f : FieldSpec) (d v : Val) (hc : Conforms f.ty d)
+    (h : postprocess f d = .ok v) : Conforms f.ty v := by
+  rcases hc with ⟨hopt, rfl⟩ | hn
+  · exact Or.inl ⟨hopt, postprocess_none f v h⟩
+  · right
+    cases hin : f.ty.inner with
+    | sc t =>
+      rw [hin] at hn
+      cases d with
+      | sc s =>
+        simp only [NConforms] at hn
+        cases hopt : f.ty.optional with
+        | false =>
+          rw [postprocess_sc_id f t s hopt hin hn] at h
+          simp only [PostOut.ok.injEq] at h; subst h
+          exact hn
+        | true =>
+          unfold postprocess at h
+          rw [hopt, hin] at h
+          simp only [PostOut.ok.injEq] at h; subst h
+          exact hn
+      | list l => simp [NConforms] at hn
+      | tuple l => simp [NConforms] at hn
+    | literal vals =>
+      rw [hin] at hn
+      cases d with
+      | sc s =>
+        simp only [NConforms] at hn
+        cases hopt : f.ty.optional with
+        | true =>
+          unfold postprocess at h
+          rw [hopt, hin] at h
+          simp only [PostOut.ok.injEq] at h; subst h
+          exact hn
+        | false =>
+          unfold postprocess at h
+          rw [hopt, hin] at h
+          simp only at h
+          split at h
+          · rename_i u
+            split at h
+            · rename_i w hw
+              simp only [PostOut.ok.injEq] at h; subst h
+              exact List.mem_reverse.mp (List.mem_of_find?_eq_some hw)
+            · cases h
+          · simp only [PostOut.ok.injEq] at h; subst h
+            exact hn
+      | list l => simp [NConforms] at hn
+      | tuple l => simp [NConforms] at hn
+    | list item =>
+      rw [hin] at hn
+      cases d with
+      | sc s => simp [NConforms] at hn
+      | tuple l => simp [NConforms] at hn
+      | list l =>
+        have : v = .list l := by
+          unfold postprocess at h
+          rw [hin] at h
+          cases hopt : f.ty.optional <;> rw [hopt] at h <;>
+            simp only [tupleToList_list, PostOut.ok.injEq] at h <;> exact h.symm
+        subst this
+        exact hn
+    | tuple items =>
+      rw [hin] at hn
+      cases d with
+      | sc s => simp [NConforms] at hn
+      | list l => simp [NConforms] at hn
+      | tuple l =>
+        have : v = .tuple l := by
+          unfold postprocess at h
+          rw [hin] at h
+          cases hopt : f.ty.optional <;> rw [hopt] at h <;>
+            simp only [listToTuple, PostOut.ok.injEq] at h <;> exact h.symm
+        subst this
+        exact hn
+    | vtuple item =>
+      rw [hin] at hn
+      cases d with
+      | sc s => simp [NConforms] at hn
+      | list l => simp [NConforms] at hn
+      | tuple l =>
+        have : v = .tuple l := by
+          unfold postprocess at h
+          rw [hin] at h
+          cases hopt : f.ty.optional <;> rw [hopt] at h <;>
+            simp only [listToTuple, PostOut.ok.injEq] at h <;> exact h.symm
+        subst this
+        exact hn
+
+theorem defaultVal_conforms (f : FieldSpec)
+    (hdc : ∀ d, f.default = .value d → Conforms f.ty d ∨ d = .sc .none) :
+    Conforms f.ty (defaultVal f.default) ∨ defaultVal f.default = .sc .none := by
+  cases hd : f.default with
+  | missing => exact Or.inr rfl
+  | value d => exact hdc d hd
+
+/-- what a field receives from its (well-typed) declared default conforms to the annotation, or is
+    the `None` of a field declared `= None` / without default -/
+theorem fromDefault_conforms (fenv : FEnv) (f : FieldSpec) (v : Val)
+    (hdc : ∀ d, f.default = .value d → Conforms f.ty d ∨ d = .sc .none)
+    (h : FromDefault fenv f v) : Conforms f.ty v ∨ v = .sc .none := by
+  obtain ⟨raw, hpost, hraw⟩ := h
+  -- the declared default itself
+  have hdecl : raw = defaultVal f.default → Conforms f.ty v ∨ v = .sc .none := by
+    intro h0
+    subst h0
+    rcases defaultVal_conforms f hdc with hc | hn
+    · exact Or.inl (postprocess_conforms f _ v hc hpost)
+    · rw [hn] at hpost; exact Or.inr (postprocess_none f v hpost)
+  -- a conforming scalar of a scalar field
+  have hscalar : ∀ t w, f.ty.inner = .sc t → IConforms t w → raw = .sc w → Conforms f.ty v := by
+    intro t w hin hcw hr
+    subst hr
+    exact postprocess_conforms f _ v (Or.inr (by rw [hin]; exact hcw)) hpost
+  rcases hraw with h0 | ⟨ao, hao, h1 | ⟨s, k, w, h1, h2, h3⟩⟩
+  · exact hdecl h0
+  · -- the default as handed to argparse
+    have hsh := argOptions_shape f ao hao
+    cases hsh with
+    | literal _ _ _ _ _ hao' => exact hdecl (h1.trans hao'.default)
+    | tuple _ _ _ _ hao' => exact hdecl (h1.trans hao'.default)
+    | vtuple _ _ hao' => exact hdecl (h1.trans hao'.default)
+    | list _ _ _ _ hao' => exact hdecl (h1.trans hao'.default)
+    | optScalar _ _ _ hao' => exact hdecl (h1.trans hao'.default)
+    | union _ _ _ hao' => exact hdecl (h1.trans hao'.default)
+    | bool _ _ hao' => exact hdecl (h1.trans hao'.default)
+    | plain _ _ _ _ hao' => exact hdecl (h1.trans hao'.default)
+    | «enum» cls ms hopt hin hao' =>
+      rw [hao'.default] at h1
+      cases hdv : defaultVal f.default with
+      | list l => rw [hdv] at h1; exact hdecl (h1.trans hdv.symm)
+      | tuple l => rw [hdv] at h1; exact hdecl (h1.trans hdv.symm)
+      | sc sc0 =>
+        cases sc0 with
+        | «enum» c n =>
+          rw [hdv] at h1
+          simp only [enumDefault] at h1
+          -- the declared default is the member `c.n`: it conforms, so `n` is a member name
+          have hd : f.default = .value (.sc (.enum c n)) := by
+            cases hd : f.default with
+            | missing => rw [hd] at hdv; cases hdv
+            | value d => rw [hd] at hdv; simp only [defaultVal] at hdv; rw [hdv]
+          rcases hdc _ hd with hc | hc
+          · simp only [Conforms, hopt, hin, NConforms, IConforms, BConforms] at hc
+            rcases hc with ⟨hc, _⟩ | ⟨hcc, hm⟩
+            · cases hc
+            · subst hcc
+              left; right
+              subst h1
+              unfold postprocess at hpost
+              rw [hopt, hin] at hpost
+              have hm' : ms.contains n = true := by simpa using hm
+              simp only [hm', ↓reduceIte, PostOut.ok.injEq] at hpost
+              subst hpost
+              rw [hin]
+              simp only [NConforms, IConforms, BConforms, true_and]
+              exact hm
+          · cases hc
+        | int i => rw [hdv] at h1; exact hdecl (h1.trans hdv.symm)
+        | float r => rw [hdv] at h1; exact hdecl (h1.trans hdv.symm)
+        | str u => rw [hdv] at h1; exact hdecl (h1.trans hdv.symm)
+        | bool b => rw [hdv] at h1; exact hdecl (h1.trans hdv.symm)
+        | none => rw [hdv] at h1; exact hdecl (h1.trans hdv.symm)
+        | path u => rw [hdv] at h1; exact hdecl (h1.trans hdv.symm)
+  · -- a string default that argparse ran through `type=`
+    have hsh := argOptions_shape f ao hao
+    have hstrdecl : ao.default = defaultVal f.default → f.default = .value (.sc (.str s)) := by
+      intro he; rw [he] at h1; exact defaultVal_str _ _ h1
+    -- a string default never conforms to a container annotation
+    have hnocontainer : ao.default = defaultVal f.default →
+        (∀ t, f.ty.inner ≠ .sc t) → (∀ vals, f.ty.inner ≠ .literal vals) → False := by
+      intro he hns hnl
+      rcases hdc _ (hstrdecl he) with hc | hc
+      · rcases hc with ⟨_, hc⟩ | hc
+        · cases hc
+        · cases hin : f.ty.inner with
+          | sc t => exact hns t hin
+          | literal vals => exact hnl vals hin
+          | list item => rw [hin] at hc; simp [NConforms] at hc
+          | tuple items => rw [hin] at hc; simp [NConforms] at hc
+          | vtuple item => rw [hin] at hc; simp [NConforms] at hc
+      · cases hc
+    cases hsh with
+    | literal vals names hopt hin hm hao' =>
+      rw [hao'.conv] at h2
+      simp only [Conv.apply, BConv.apply, ConvOut.ok.injEq] at h2
+      subst h2
+      exact hdecl (by rw [h3, ← h1, hao'.default])
+    | tuple items c hin _ hao' =>
+      exact absurd (hnocontainer hao'.default (by intro t ht; rw [hin] at ht; cases ht)
+        (by intro t ht; rw [hin] at ht; cases ht)) id
+    | vtuple item hin hao' =>
+      exact absurd (hnocontainer hao'.default (by intro t ht; rw [hin] at ht; cases ht)
+        (by intro t ht; rw [hin] at ht; cases ht)) id
+    | list item c hin _ hao' =>
+      exact absurd (hnocontainer hao'.default (by intro t ht; rw [hin] at ht; cases ht)
+        (by intro t ht; rw [hin] at ht; cases ht)) id
+    | optScalar t _ hin hao' =>
+      rw [hao'.conv] at h2
+      exact Or.inl (hscalar t w hin (convOfItem_conforms fenv t k s w h2) h3)
+    | union alts _ hin hao' =>
+      rw [hao'.conv] at h2
+      exact Or.inl (hscalar _ w hin (union_conforms fenv alts s w h2) h3)
+    | bool _ hin hao' =>
+      rw [hao'.conv] at h2
+      exact Or.inl (hscalar _ w hin (bconv_conforms fenv .bool s w h2) h3)
+    | plain b _ hin _ hao' =>
+      rw [hao'.conv] at h2
+      exact Or.inl (hscalar _ w hin (bconv_conforms fenv b s w h2) h3)
+    | «enum» cls ms hopt hin hao' =>
+      -- `type=str` leaves the name alone: same as the default handed to argparse
+      rw [hao'.conv] at h2
+      simp only [Conv.apply, BConv.apply, ConvOut.ok.injEq] at h2
+      subst h2
+      have hraw' : raw = ao.default := by rw [h3, h1]
+      -- reuse the previous case through `FromDefault`'s second alternative
+      rw [hao'.default] at hraw'
+      cases hdv : defaultVal f.default with
+      | list l => rw [hdv] at hraw'; exact hdecl (hraw'.trans hdv.symm)
+      | tuple l => rw [hdv] at hraw'; exact hdecl (hraw'.trans hdv.symm)
+      | sc sc0 =>
+        cases sc0 with
+        | «enum» c n =>
+          rw [hdv] at hraw'
+          simp only [enumDefault] at hraw'
+          have hd : f.default = .value (.sc (.enum c n)) := by
+            cases hd : f.default with
+            | missing => rw [hd] at hdv; cases hdv
+            | value d => rw [hd] at hdv; simp only [defaultVal] at hdv; rw [hdv]
+          rcases hdc _ hd with hc | hc
+          · simp only [Conforms, hopt, hin, NConforms, IConforms, BConforms] at hc
+            rcases hc with ⟨hc, _⟩ | ⟨hcc, hm⟩
+            · cases hc
+            · subst hcc
+              left; right
+              subst hraw'
+              unfold postprocess at hpost
+              rw [hopt, hin] at hpost
+              have hm' : ms.contains n = true := by simpa using hm
+              simp only [hm', ↓reduceIte, PostOut.ok.injEq] at hpost
+              subst hpost
+              rw [hin]
+              simp only [NConforms, IConforms, BConforms, true_and]
+              exact hm
+          · cases hc
+        | int i => rw [hdv] at hraw'; exact hdecl (hraw'.trans hdv.symm)
+        | float r => rw [hdv] at hraw'; exact hdecl (hraw'.trans hdv.symm)
+        | str u => rw [hdv] at hraw'; exact hdecl (hraw'.trans hdv.symm)
+        | bool b => rw [hdv] at hraw'; exact hdecl (hraw'.trans hdv.symm)
+        | none => rw [hdv] at hraw'; exact hdecl (hraw'.trans hdv.symm)
+        | path u => rw [hdv] at hraw'; exact hdecl (hraw'.trans hdv.symm)
+
+/-- field by field: the right name and a value that conforms to the annotation (or `None`) -/
+def FieldsConform : List FieldSpec → List (Str × Val) → Prop
+  | [], [] => True
+  | f :: fs, p :: ps => p.1 = f.name ∧ (Conforms f.ty p.2 ∨ p.2 = .sc .none) ∧ FieldsConform fs ps
+  | _, _ => False
+
+theorem fieldsOk_conform (fenv : FEnv) : ∀ (fs : List FieldSpec) (fields : List (Str × Val)),
+    DefaultsConform fs → FieldsOk fenv fs fields → FieldsConform fs fields
+  | [], [], _, _ => trivial
+  | [], _ :: _, _, h => by simp [FieldsOk] at h
+  | _ :: _, [], _, h => by simp [FieldsOk] at h
+  | f :: fs, p :: ps, hdc, h => by
+    obtain ⟨hn, hv, hrest⟩ := h
+    refine ⟨hn, ?_, fieldsOk_conform fenv fs ps (fun g hg => hdc g (by simp [hg])) hrest⟩
+    rcases hv with hv | hv
+    · exact Or.inl hv
+    · exact fromDefault_conforms fenv f p.2 (hdc f (by simp)) hv
+
+/-- **C04 (every field conforms), the whole flat pipeline.** If moreover the declared defaults are
+    well-typed: whenever `parse_args` returns an instance, EVERY field value conforms to its
+    annotation — or is `None` (a field declared `= None`, issue #132; a field without default is
+    required and its absence is rejected: `c04_missing_required_any`). -/
+theorem c04_conforms_flat_strict (fenv : FEnv) (cfg : Cfg) (dest : Str) (fs : List FieldSpec)
+    (argv : List Str) (fields : List (Str × Val)) (hnd : (fs.map (·.name)).Nodup)
+    (hdc : DefaultsConform fs) (h : parseFlat fenv cfg dest fs argv = .ok fields) :
+    FieldsConform fs fields :=
+  fieldsOk_conform fenv fs fields hdc (c04_conforms_flat fenv cfg dest fs argv fields hnd h)
+
+/-- non-vacuity of `c04_conforms_flat_strict`: `demoFields` has well-typed defaults -/
+theorem demoFields_defaultsConform : DefaultsConform demoFields := by
+  intro f hf v hv
+  simp only [demoFields, List.mem_cons, List.not_mem_nil, or_false] at hf
+  rcases hf with rfl | rfl
+  · simp only [DefaultV.value.injEq] at hv
+    subst hv
+    left; right
+    simp [NConforms, TupleConforms, IConforms, BConforms]
+  · simp only [colorField, DefaultV.value.injEq] at hv
+    subst hv
+    left; right
+    simp [colorField, NConforms, IConforms, BConforms]
+
+example : FieldsConform demoFields
+    [("t".toList, .tuple [.int 5, .str "x".toList]),
+     ("color".toList, .sc (.enum "Color".toList "GREEN".toList))] :=
+  c04_conforms_flat_strict [] { dash := .underscore, gen := .flat, nest := .default } "c".toList
+    demoFields ["-t".toList, "5".toList, "x".toList, "--color".toList, "GREEN".toList] _
+    (by simp [demoFields, colorField]) demoFields_defaultsConform (by rfl)
+
+/-- (`consume_fuel`) the loop never runs out of fuel: `run` hands it `argv.length + 1` -/
+theorem consume_fuel (fenv : FEnv) (tbl : List Act) (fuel : Nat) (st : St) (l : List (Str × Tok))
+    (hl : l.length ≤ fuel) : consume fenv tbl fuel st l ≠ .error (.unmodelled "fuel") := by
+  intro h
+  obtain ⟨a, i, o, ex, _, herr⟩ := consume_err_trace fenv tbl fuel st l _ hl h
+  rcases herr with ⟨_, h1⟩ | ⟨act, hact, ⟨_, h1 | h1 | h1⟩ | ⟨hk, h1 | ⟨st1, args, ht⟩⟩⟩
+  · exact absurd h1 (by decide)
+  · cases h1
+  · cases h1
+  · exact absurd h1 (by decide)
+  · cases h1
+  · rcases takeAction_err_cases fenv tbl st1 i o args _ act hact hk ht with hc | hc
+    · rcases hc with hc | hc | ⟨x, hc⟩ | hc
+      · cases hc
+      · cases hc
+      · cases hc
+      · exact absurd hc (by decide)
+    · cases hc
+
+/-- non-vacuity of the round-1 theorems on rendered command lines (`LexOk` / `ConsumeOk`
+    instantiated): `--l a b` without the required `--n`; `--n abc` -/
+example : ∀ ns ex cs', runStrict [] demoTbl [0, 0, 0]
+    (render [{ idx := 2, opt := "--l".toList, toks := ["a".toList, "b".toList] }]) ≠ .ok ns ex cs' :=
+  c04_missing_required [] demoTbl [0, 0, 0] _
+    (by intro s hs; simp only [List.mem_singleton] at hs; subst hs
+        exact ⟨by decide, ⟨_, rfl⟩, by decide, by intro t ht; simp at ht; rcases ht with rfl | rfl <;> simp [NoDash]⟩)
+    (by intro s hs; simp only [List.mem_singleton] at hs; subst hs
+        exact ⟨⟨_, rfl, by decide, rfl⟩⟩)
+    (demoTbl[1]'(by decide)) 1 (by decide) rfl (by decide)
+
+example : ∀ ns ex cs', runStrict [] demoTbl [0, 0, 0]
+    (render [{ idx := 1, opt := "--n".toList, toks := ["abc".toList] }]) ≠ .ok ns ex cs' :=
+  c04_bad_token_rejected [] demoTbl [0, 0, 0] _
+    (by intro s hs; simp only [List.mem_singleton] at hs; subst hs
+        exact ⟨by decide, ⟨_, rfl⟩, by decide, by intro t ht; simp at ht; subst ht; simp [NoDash]⟩)
+    (by intro s hs; simp only [List.mem_singleton] at hs; subst hs
+        exact ⟨⟨_, rfl, by decide, rfl⟩⟩)
+    { idx := 1, opt := "--n".toList, toks := ["abc".toList] } (by simp) (demoTbl[1]'(by decide)) rfl
+    "abc".toList (by simp) (never_int [] _ 1 "abc".toList rfl (by decide))
 
 end SpVerif.C04
